@@ -1,757 +1,2436 @@
-"""C19 — string codecs and helpers: base64 tables / bit provenance / skip loops, hex digit
-tables vs parser switches, scan windows, writer/reader quoting agreement, three-way
-comparator orientation, case-insensitive overload families, forwarding roles."""
-from engine import ir, dtable, match, linear, cfg as cfgm
-from engine.ir import kids, strip_casts, const_int, ref_of
-from rules.c20 import bits_eval, ShiftUB
-from rules.c15 import flatten_switch
+"""C19 - string codecs and helpers: base64 tables / bit provenance / skip positions, hex digit tables vs the parser, scan
+windows of split, writer/reader quoting agreement, three-way comparator orientation, case-insensitive overload families,
+forwarding roles, replace_all resume position.
 
-RFC_ALPHABET = "ABCDEFGHIJKLMNOPQRSTUVWXYZabcdefghijklmnopqrstuvwxyz0123456789+/"
+Every rule here is decided by EVALUATION: the extracted AST of the function is run on a small abstract machine (rule-local,
+below) for a complete small family of inputs (all 256 byte values, symbolic bytes whose bits are traced, all strings over a
+two-letter alphabet up to length 4, ...) and the result is compared with the specified result.  A violation is therefore
+always a concrete counterexample (input, what the code yields, what it must yield).  Nothing is concluded from the shape of
+the code: a construct the machine does not model is "cannot decide" (dtable.Undecidable, exit 2), never a violation, so a
+behaviour-preserving rewrite (renamed locals, helper functions, other loop forms, early returns, std algorithms instead of
+loops, ...) is either evaluated like the original or not decided."""
+import itertools
 
+from engine import ir, dtable
+from engine.ir import kids
 
-def local_table(fn, name):
-    for x in fn.nodes():
-        if x["k"] == "VarDecl" and x["name"] == name and kids(x):
-            init = strip_casts(kids(x)[0])
-            if init["k"] == "InitListExpr":
-                return [const_int(e) for e in kids(init)]
-            if "bytes" in init:
-                return list(init["bytes"])
-    raise ir.AnalysisBroken("%s: table %s not found" % (fn.loc, name))
+Und = dtable.Undecidable
 
 
-def local_const(fn, name):
-    for x in fn.nodes():
-        if x["k"] == "VarDecl" and x["name"] == name and kids(x):
-            return const_int(kids(x)[0])
+# ------------------------------------------------------------------ abstract machine
+# A small interpreter for the string helpers' ASTs.  Integers, bytes, pointers into buffers, std::string, string_view and
+# std::vector<string|string_view> are concrete; bytes of an input may also be symbolic bit vectors (base64 bit provenance).
+# Whatever the machine does not model raises dtable.Undecidable (exit 2) - it never guesses.  What it does model is
+# executed exactly, so a wrong result / a read outside a buffer / a run that does not end is a concrete counterexample.
+W = 32
+NPOS = (1 << 64) - 1
+
+
+class MemFault(Exception):
+    """the interpreted code touches memory outside an object (a concrete fault of the analysed code)"""
+
+
+class Thrown(Exception):
+    """a C++ exception leaves the interpreted function"""
+
+
+class Hang(Exception):
+    """the step budget of one concrete run is exhausted"""
+
+
+class _Brk(Exception):
+    pass
+
+
+class _Cont(Exception):
+    pass
+
+
+class _Ret(Exception):
+    def __init__(self, v):
+        self.v = v
+
+
+class Buf:
+    """contiguous storage; kind 'bytes' (cells 0..255 or symbolic bytes), 'vals' (integers), 'objs' (vector elements)"""
+    __slots__ = ("cells", "what", "zterm", "kind", "table")
+
+    def __init__(self, cells, what="buffer", zterm=False, kind="bytes", table=False):
+        self.cells, self.what, self.zterm, self.kind, self.table = list(cells), what, zterm, kind, table
+
+
+class Ptr:
+    __slots__ = ("buf", "off")
+
+    def __init__(self, buf, off):
+        self.buf, self.off = buf, off
+
+
+class Str:
+    __slots__ = ("buf",)
+
+    def __init__(self, cells=()):
+        self.buf = Buf(cells, "std::string", zterm=True)
+
+
+class View:
+    __slots__ = ("buf", "off", "n")
+
+    def __init__(self, buf, off, n):
+        self.buf, self.off, self.n = buf, off, n
+
+
+class Vec:
+    __slots__ = ("buf", "elem")
+
+    def __init__(self, items=(), elem="?"):
+        self.buf, self.elem = Buf(items, "std::vector", kind="objs" if elem in ("str", "view") else "vals"), elem
+
+
+class Ref:
+    """pointer to an object (std::string*, std::vector<...>*)"""
+    __slots__ = ("obj",)
+
+    def __init__(self, obj):
+        self.obj = obj
+
+
+class Stream:
+    __slots__ = ("s",)
+
+    def __init__(self):
+        self.s = Str()
+
+
+class Lam:
+    __slots__ = ("fn",)
+
+    def __init__(self, fn):
+        self.fn = fn
+
+
+class Moved:
+    __slots__ = ("obj",)
+
+    def __init__(self, obj):
+        self.obj = obj
+
+
+class Alias:
+    __slots__ = ("lv",)
+
+    def __init__(self, lv):
+        self.lv = lv
+
+
+class Pair:
+    __slots__ = ("first", "second")
+
+    def __init__(self, first, second):
+        self.first, self.second = first, second
+
+
+class Letter:
+    """input byte k of the base64 decoder: some letter of the alphabet whose 6-bit value is symbolic"""
+    __slots__ = ("k",)
+
+    def __init__(self, k):
+        self.k = k
+
+
+class Enc:
+    """table[index] for a symbolic index"""
+    __slots__ = ("buf", "idx")
+
+    def __init__(self, buf, idx):
+        self.buf, self.idx = buf, idx
+
+
+UNINIT = type("Uninit", (), {"__repr__": lambda s: "<uninitialised>"})()
+DEFAULT = type("Default", (), {"__repr__": lambda s: "<default argument>"})()
+
+
+class BV:
+    """W-bit vector; a bit is 0, 1 or a symbol (name, j)"""
+    __slots__ = ("bits",)
+
+    def __init__(self, bits):
+        self.bits = tuple(bits)
+
+    @staticmethod
+    def of(v):
+        if isinstance(v, BV):
+            return v
+        return BV((v >> i) & 1 for i in range(W))
+
+    def known(self):
+        return all(b in (0, 1) for b in self.bits)
+
+    def value(self):
+        return sum(b << i for i, b in enumerate(self.bits))
+
+    def lo(self):
+        return sum((b if b in (0, 1) else 0) << i for i, b in enumerate(self.bits))
+
+    def hi(self):
+        return sum((b if b in (0, 1) else 1) << i for i, b in enumerate(self.bits))
+
+    def conv(self, bits, signed):
+        if bits >= W:
+            if self.bits[W - 1] not in (0,) and bits > W:
+                raise Und("symbolic value widened beyond %d bits" % W)
+            return self
+        top = self.bits[bits - 1] if signed else 0
+        return BV(list(self.bits[:bits]) + [top] * (W - bits))
+
+
+_INT = {"bool": (1, False), "char": (8, True), "signed char": (8, True), "unsigned char": (8, False), "std::uint8_t": (8, False),
+        "uint8_t": (8, False), "std::int8_t": (8, True), "int8_t": (8, True), "short": (16, True), "unsigned short": (16, False),
+        "int": (32, True), "unsigned int": (32, False), "unsigned": (32, False), "long": (64, True), "unsigned long": (64, False),
+        "long long": (64, True), "unsigned long long": (64, False), "size_t": (64, False), "std::size_t": (64, False),
+        "std::ptrdiff_t": (64, True), "ptrdiff_t": (64, True), "std::uint16_t": (16, False), "std::uint32_t": (32, False),
+        "std::uint64_t": (64, False), "std::int32_t": (32, True), "std::int64_t": (64, True), "wchar_t": (32, True),
+        "char16_t": (16, False), "char32_t": (32, False), "char8_t": (8, False)}
+
+
+def _bare(ty):
+    t = (ty or "").strip()
+    while True:
+        t0 = t
+        for pre in ("const ", "volatile "):
+            if t.startswith(pre):
+                t = t[len(pre):].strip()
+        for suf in ("&&", "&", " const", " volatile", "*const", "* const"):
+            if t.endswith(suf):
+                t = t[:-len(suf)].strip() + ("*" if suf.startswith("*") else "")
+        if t == t0:
+            return t
+
+
+def int_type(ty):
+    return _INT.get(_bare(ty))
+
+
+def kind_of_type(ty):
+    t = _bare(ty)
+    if t.startswith("std::basic_string<char") or t in ("std::string",):
+        return "str"
+    if t.startswith("tlx::StringView") or t.startswith("std::basic_string_view<char") or t in ("tlx::string_view", "std::string_view"):
+        return "view"
+    if t.startswith("std::vector<"):
+        return "vec"
+    if t.startswith("std::basic_ostringstream<") or t.startswith("std::basic_stringstream<") or t in ("std::ostringstream", "std::stringstream"):
+        return "stream"
     return None
 
 
-# ------------------------------------------------------------------ base64
-class B64Interp:
-    """symbolic run of one group of the encoder / decoder loop body.  Input units are symbolic bit
-    vectors; `in == in_end` is decided by the number of units still available."""
+def vec_elem(ty):
+    t = _bare(ty)
+    while t.endswith("*"):
+        t = _bare(t[:-1])
+    if not t.startswith("std::vector<"):
+        return "?"
+    inner = t[len("std::vector<"):].strip()
+    if inner.startswith("std::basic_string<char") or inner.startswith("std::string"):
+        return "str"
+    if inner.startswith("tlx::StringView") or inner.startswith("tlx::string_view") or inner.startswith("std::basic_string_view<char") or \
+            inner.startswith("std::string_view"):
+        return "view"
+    return "int" if int_type(inner.split(",")[0].rstrip("> ").strip()) else "?"
 
-    def __init__(self, fn, avail, unit_bits, reader):
-        self.fn = fn
-        self.avail = avail
-        self.unit_bits = unit_bits
-        self.reader = reader          # 'byte' (*in++) or 'table' (decoding64[*in++])
-        self.read = 0
-        self.env = {}
-        self.out = []
-        self.W = 16
 
-    def unit(self):
-        k = self.read
-        self.read += 1
-        return [("u%d" % k, j) if j < self.unit_bits else 0 for j in range(self.W)]
+def conv(v, ty):
+    it = int_type(ty)
+    if it is None:
+        return v
+    bits, signed = it
+    if isinstance(v, bool):
+        v = int(v)
+    if isinstance(v, int):
+        if bits == 1:
+            return 1 if v else 0
+        v &= (1 << bits) - 1
+        if signed and v >> (bits - 1):
+            v -= 1 << bits
+        return v
+    if isinstance(v, BV):
+        if bits == 1:
+            raise Und("symbolic value used as a truth value")
+        return v.conv(bits, signed)
+    return v
 
-    def is_in_end_test(self, c):
-        b = match.binop(c, ("==",))
-        return bool(b and {ir.ref_name(b[1]), ir.ref_name(b[2])} == {"in", "in_end"})
 
-    def value(self, e):
-        e0 = strip_casts(e)
-        # *in++  /  decoding64[*in++]
-        d = match.deref_of(e0)
-        if d is not None:
-            u = match.unop(d, ("++",))
-            if u and ir.ref_name(u[1]) == "in":
-                return self.unit()
-        p = match.index_parts(e0)
-        if p and ir.ref_name(p[0]) == "decoding64":
-            return self.value(p[1])
+def _bit_and(x, y):
+    if x == 0 or y == 0:
+        return 0
+    if x == 1:
+        return y
+    if y == 1 or x == y:
+        return x
+    return ("&",) + tuple(sorted((x, y), key=repr))          # a mix of two input bits: opaque, equal only to itself
+
+
+def _bit_or(x, y):
+    if x == 1 or y == 1:
+        return 1
+    if x == 0:
+        return y
+    if y == 0 or x == y:
+        return x
+    return ("|",) + tuple(sorted((x, y), key=repr))
+
+
+def _bit_xor(x, y):
+    if x in (0, 1) and y in (0, 1):
+        return x ^ y
+    if x == 0:
+        return y
+    if y == 0:
+        return x
+    if x == y:
+        return 0
+    return ("^",) + tuple(sorted((x, y), key=repr))
+
+
+def bv_op(op, a, b, ty):
+    """binary operator with at least one symbolic operand"""
+    if isinstance(a, (Letter, Enc)) or isinstance(b, (Letter, Enc)):
+        raise Und("arithmetic on an input letter / table value")
+    if op in ("<<", ">>"):
+        if not isinstance(b, int):
+            raise Und("shift by a symbolic amount")
+        a = BV.of(a)
+        if b < 0 or b >= W:
+            raise Und("shift of a symbolic value by %d" % b)
+        if op == "<<":
+            r = BV([0] * b + list(a.bits[:W - b]))
+        else:
+            if a.bits[W - 1] != 0:
+                raise Und("right shift of a possibly negative symbolic value")
+            r = BV(list(a.bits[b:]) + [0] * b)
+        return conv(r, ty)
+    a, b = BV.of(a & ((1 << W) - 1) if isinstance(a, int) else a), BV.of(b & ((1 << W) - 1) if isinstance(b, int) else b)
+    if op in ("&", "|", "^"):
+        f = {"&": _bit_and, "|": _bit_or, "^": _bit_xor}[op]
+        return conv(BV(f(x, y) for x, y in zip(a.bits, b.bits)), ty)
+    if op in ("==", "!="):
+        differ = any(x in (0, 1) and y in (0, 1) and x != y for x, y in zip(a.bits, b.bits))
+        if differ:
+            return int(op == "!=")
+        if a.bits == b.bits:
+            return int(op == "==")
+        raise Und("comparison of symbolic values not decided by their known bits")
+    if op in ("<", "<=", ">", ">="):
+        if a.bits[W - 1] != 0 or b.bits[W - 1] != 0:
+            raise Und("ordering of possibly negative symbolic values")
+        if op in (">", ">="):
+            a, b, op = b, a, {">": "<", ">=": "<="}[op]
+        if op == "<":
+            if a.hi() < b.lo():
+                return 1
+            if a.lo() >= b.hi():
+                return 0
+        else:
+            if a.hi() <= b.lo():
+                return 1
+            if a.lo() > b.hi():
+                return 0
+        raise Und("ordering of symbolic values not decided by their ranges")
+    if a.known() and b.known():
+        return None       # caller computes on integers
+    raise Und("arithmetic (%s) on symbolic values" % op)
+
+
+def truthy(v):
+    if isinstance(v, bool):
+        return v
+    if isinstance(v, int):
+        return v != 0
+    if isinstance(v, Ptr):
+        return v.buf is not None
+    if isinstance(v, Ref):
+        return v.obj is not None
+    if isinstance(v, BV) and v.known():
+        return v.value() != 0
+    raise Und("truth value of %s" % type(v).__name__)
+
+
+def load(buf, off, ty=None):
+    if buf is None:
+        raise MemFault("a null pointer is dereferenced")
+    n = len(buf.cells)
+    if 0 <= off < n:
+        c = buf.cells[off]
+    elif off == n and buf.zterm:
+        c = 0
+    else:
+        raise MemFault("the %s (%d element(s)) is read at index %d" % (buf.what, n, off))
+    if buf.kind == "objs":
+        return c
+    return conv(c, ty) if ty else c
+
+
+def store(buf, off, v):
+    if buf is None:
+        raise MemFault("a null pointer is written through")
+    n = len(buf.cells)
+    if not 0 <= off < n:
+        if off == n and buf.zterm and v == 0:
+            return
+        raise MemFault("the %s (%d element(s)) is written at index %d" % (buf.what, n, off))
+    if buf.table:
+        raise Und("write into a constant table")
+    buf.cells[off] = cell_of(buf, v)
+
+
+def cell_of(buf, v):
+    if buf.kind == "bytes":
+        if isinstance(v, bool):
+            v = int(v)
+        if isinstance(v, int):
+            return v & 0xFF
+        if isinstance(v, BV):
+            return v.conv(8, False)
+        if isinstance(v, (Enc, Letter)):
+            return v
+        raise Und("%s stored into a byte buffer" % type(v).__name__)
+    if buf.kind == "objs":
+        if isinstance(v, Moved):
+            return take(v)
+        if isinstance(v, Str):
+            return Str(v.buf.cells)
+        return v
+    return v
+
+
+def take(v):
+    """the value of a std::move()d object; the source is left empty"""
+    o = v.obj
+    if isinstance(o, Str):
+        r = Str(o.buf.cells)
+        o.buf.cells = []
+        return r
+    if isinstance(o, Vec):
+        r = Vec(o.buf.cells, o.elem)
+        o.buf.cells = []
+        return r
+    return o
+
+
+def unmoved(v):
+    return v.obj if isinstance(v, Moved) else v
+
+
+class VarLV:
+    def __init__(self, env, did):
+        self.env, self.did = env, did
+
+    def get(self):
+        v = self.env[self.did]
+        return v.lv.get() if isinstance(v, Alias) else v
+
+    def set(self, v):
+        cur = self.env.get(self.did)
+        if isinstance(cur, Alias):
+            cur.lv.set(v)
+        else:
+            self.env[self.did] = v
+
+
+class CellLV:
+    def __init__(self, buf, off, ty=None):
+        self.buf, self.off, self.ty = buf, off, ty
+
+    def get(self):
+        return load(self.buf, self.off, self.ty)
+
+    def set(self, v):
+        store(self.buf, self.off, v)
+
+
+class ObjLV:
+    def __init__(self, obj):
+        self.obj = obj
+
+    def get(self):
+        return self.obj
+
+    def set(self, v):
+        assign_obj(self.obj, v)
+
+
+def assign_obj(obj, v):
+    if isinstance(obj, Str):
+        if isinstance(v, Moved) and isinstance(v.obj, Str):
+            if v.obj is not obj:
+                obj.buf.cells = take(v).buf.cells
+        elif isinstance(v, Str):
+            obj.buf.cells = list(v.buf.cells)
+        elif isinstance(v, View):
+            obj.buf.cells = view_cells(v)
+        elif isinstance(v, Ptr):
+            obj.buf.cells = cstr_cells(v)
+        elif isinstance(v, int):
+            obj.buf.cells = [v & 0xFF]
+        else:
+            raise Und("assignment of %s to a std::string" % type(v).__name__)
+        return
+    if isinstance(obj, Vec):
+        if isinstance(v, Moved) and isinstance(v.obj, Vec):
+            if v.obj is not obj:
+                obj.buf.cells = take(v).buf.cells
+        elif isinstance(v, Vec):
+            obj.buf.cells = [cell_of(obj.buf, x) for x in v.buf.cells]
+        else:
+            raise Und("assignment of %s to a std::vector" % type(v).__name__)
+        return
+    raise Und("assignment to an object of kind %s" % type(obj).__name__)
+
+
+def view_cells(v):
+    if v.n == 0:
+        return []
+    if v.buf is None or v.off < 0 or v.off + v.n > len(v.buf.cells):
+        raise MemFault("a string_view of %d byte(s) at offset %d reaches outside its %s of %d byte(s)"
+                       % (v.n, v.off, v.buf.what if v.buf else "null buffer", len(v.buf.cells) if v.buf else 0))
+    return v.buf.cells[v.off:v.off + v.n]
+
+
+def cstr_cells(p):
+    out = []
+    i = p.off
+    while True:
+        c = load(p.buf, i)
+        if not isinstance(c, int):
+            raise Und("symbolic byte in a C string")
+        if c == 0:
+            return out
+        out.append(c)
+        i += 1
+
+
+def range_cells(a, b):
+    if not isinstance(a, Ptr) or not isinstance(b, Ptr) or a.buf is not b.buf:
+        raise Und("iterator pair into different objects")
+    if b.off < a.off:
+        raise MemFault("a range is built whose end (%d) lies before its beginning (%d)" % (b.off, a.off))
+    if a.off == b.off:
+        return []
+    if a.buf is None or a.off < 0 or b.off > len(a.buf.cells):
+        raise MemFault("a range [%d, %d) reaches outside its %s of %d element(s)" % (a.off, b.off, a.buf.what if a.buf else "null", len(a.buf.cells) if a.buf else 0))
+    return a.buf.cells[a.off:b.off]
+
+
+def ptr_n_cells(p, n):
+    if not isinstance(p, Ptr) or not isinstance(n, int):
+        raise Und("(pointer, length) expected")
+    return range_cells(p, Ptr(p.buf, p.off + n))
+
+
+def all_int(cells):
+    if not all(isinstance(c, int) for c in cells):
+        raise Und("symbolic bytes in a string operation")
+    return cells
+
+
+def find_sub(hay, needle, pos):
+    hay, needle = all_int(hay), all_int(needle)
+    if pos > len(hay):
+        return NPOS
+    r = bytes(hay).find(bytes(needle), pos)
+    return NPOS if r < 0 else r
+
+
+def rfind_sub(hay, needle, pos):
+    hay, needle = all_int(hay), all_int(needle)
+    end = len(hay) if pos >= NPOS or pos + len(needle) > len(hay) else pos + len(needle)
+    r = bytes(hay).rfind(bytes(needle), 0, end)
+    return NPOS if r < 0 else r
+
+
+def find_of(hay, chars, pos, first=True, member=True):
+    hay, chars = all_int(hay), set(all_int(chars))
+    if first:
+        for i in range(min(pos, len(hay) + 1) if pos < NPOS else len(hay), len(hay)):
+            if (hay[i] in chars) == member:
+                return i
+        return NPOS
+    if not hay:
+        return NPOS
+    for i in range(min(pos, len(hay) - 1), -1, -1):
+        if (hay[i] in chars) == member:
+            return i
+    return NPOS
+
+
+_PTR_OPS = ("*", "++", "--", "+", "-", "+=", "-=", "[]", "==", "!=", "<", ">", "<=", ">=", "->")
+
+
+class Mach:
+    def __init__(self, tu, budget=500000):
+        self.tu = tu
+        self.steps = 0
+        self.budget = budget
+        self.depth = 0
+
+    def tick(self):
+        self.steps += 1
+        if self.steps > self.budget:
+            raise Hang("no result after %d evaluation steps" % self.budget)
+
+    # ---------------------------------------------------------------- calls
+    def invoke(self, fn, args):
+        if fn.body is None:
+            raise Und("%s has no body in this translation unit" % fn.qname)
+        if len(args) != len(fn.params):
+            raise Und("%s called with %d argument(s)" % (fn.qname, len(args)))
+        self.depth += 1
+        if self.depth > 40:
+            raise Und("call depth")
+        env = {}
+        for p, a in zip(fn.params, args):
+            if a is DEFAULT:
+                raise Und("default argument of %s" % fn.qname)
+            env[p["did"]] = conv(a, p.get("ty")) if isinstance(a, (int, BV)) else a
         try:
-            return bits_eval(e, self.env, self.W)
-        except ShiftUB:
+            self.exec(fn.body, env)
             return None
+        except _Ret as r:
+            return r.v
+        finally:
+            self.depth -= 1
 
-    def run(self, s):
+    def apply(self, f, args):
+        if isinstance(f, Lam):
+            return self.invoke(f.fn, args)
+        raise Und("call of a %s" % type(f).__name__)
+
+    def bind_args(self, callee, nodes, env):
+        out = []
+        for p, a in zip(callee.params, nodes):
+            ty = (p.get("ty") or "").strip()
+            if a is not None and a["k"] == "DefaultArg":
+                out.append(DEFAULT)
+            elif ty.endswith("&"):
+                if a.get("lv") and not ty.endswith("&&"):
+                    lv = self.lval(a, env)          # the parameter names the caller's object
+                    v = lv.get()
+                    out.append(v if isinstance(v, (Str, Vec, Stream, Lam)) else Alias(lv))
+                else:
+                    v = self.eval(a, env)
+                    out.append(unmoved(v))
+            else:
+                v = self.eval(a, env)
+                if isinstance(v, Moved):
+                    v = take(v)
+                elif isinstance(v, Str):
+                    v = Str(v.buf.cells)
+                elif isinstance(v, Vec):
+                    c = Vec((), v.elem)
+                    c.buf.cells = [cell_of(c.buf, x) for x in v.buf.cells]
+                    v = c
+                out.append(v)
+        return out
+
+    # ---------------------------------------------------------------- statements
+    def exec(self, s, env):
+        if s is None:
+            return
+        self.tick()
         k = s["k"]
         if k == "CompoundStmt":
             for c in kids(s):
-                r = self.run(c)
-                if r:
-                    return r
-            return None
-        if k == "IfStmt":
-            c, t, e = kids(s)
-            if self.is_in_end_test(c):
-                if self.read >= self.avail:
-                    return self.run(t) or "fall"
-                return None
-            # strict / line-break tests: not part of the bit flow
-            return None
-        if k == "ReturnStmt":
-            return "return"
-        if k == "DoStmt":
-            # read loop of the decoder: one valid letter
-            body = kids(s)[0]
-            for c in kids(body):
-                if c["k"] == "IfStmt" and self.is_in_end_test(kids(c)[0]):
-                    if self.read >= self.avail:
-                        return "return"
-                    continue
-                b = match.binop(c, ("=",))
-                if b and strip_casts(b[1])["k"] == "DeclRefExpr":
-                    self.env[ref_of(b[1])] = self.value(b[2])
-            return None
-        if k in ("DeclStmt",):
+                self.exec(c, env)
+        elif k == "DeclStmt":
             for v in kids(s):
-                if kids(v):
-                    val = self.value(kids(v)[0])
-                    if val is not None:
-                        self.env[v["did"]] = val
+                self.decl(v, env)
+        elif k == "IfStmt":
+            for key in ("init", "condvar"):
+                if isinstance(s.get(key), dict):
+                    self.exec(s[key], env) if s[key]["k"] != "VarDecl" else self.decl(s[key], env)
+            c, t, e = (kids(s) + [None, None])[:3]
+            self.exec(t if truthy(self.eval(c, env)) else e, env)
+        elif k == "WhileStmt":
+            c, body = kids(s)
+            while truthy(self.eval(c, env)):
+                try:
+                    self.exec(body, env)
+                except _Brk:
+                    break
+                except _Cont:
+                    pass
+        elif k == "DoStmt":
+            body, c = kids(s)
+            while True:
+                try:
+                    self.exec(body, env)
+                except _Brk:
+                    break
+                except _Cont:
+                    pass
+                if not truthy(self.eval(c, env)):
+                    break
+        elif k == "ForStmt":
+            init, c, inc, body = kids(s)
+            self.exec(init, env)
+            while c is None or truthy(self.eval(c, env)):
+                self.tick()
+                try:
+                    self.exec(body, env)
+                except _Brk:
+                    break
+                except _Cont:
+                    pass
+                if inc is not None:
+                    self.eval(inc, env)
+        elif k == "CXXForRangeStmt":
+            self.for_range(s, env)
+        elif k == "SwitchStmt":
+            self.switch(s, env)
+        elif k == "ReturnStmt":
+            raise _Ret(self.ret_value(kids(s)[0], env) if kids(s) and kids(s)[0] is not None else None)
+        elif k == "BreakStmt":
+            raise _Brk()
+        elif k == "ContinueStmt":
+            raise _Cont()
+        elif k == "NullStmt":
+            pass
+        elif k == "CXXThrowExpr":
+            raise Thrown()
+        elif k in ("GotoStmt", "LabelStmt", "CXXTryStmt", "CaseStmt", "DefaultStmt", "AttributedStmt"):
+            raise Und("statement %s at line %s" % (k, s.get("l")))
+        else:
+            self.eval(s, env)
+
+    def ret_value(self, e, env):
+        v = self.eval(e, env)
+        return take(v) if isinstance(v, Moved) else v
+
+    def decl(self, v, env):
+        if v["k"] != "VarDecl":
+            raise Und("declaration %s" % v["k"])
+        ty = v.get("ty") or ""
+        init = kids(v)[0] if kids(v) else None
+        if v.get("static") and "const" not in ty.replace("*", " * ").replace("[", " [").split():
+            raise Und("mutable static local %s" % v.get("name"))
+        if init is None:
+            kd = kind_of_type(ty)
+            env[v["did"]] = Str() if kd == "str" else View(None, 0, 0) if kd == "view" else Vec((), vec_elem(ty)) if kd == "vec" else \
+                Stream() if kd == "stream" else UNINIT
+            return
+        if "[" in ty and (init["k"] == "InitListExpr" or "bytes" in init):
+            env[v["did"]] = self.make_array(ty, init, env, v.get("name"))
+            return
+        if ty.strip().endswith("&"):
+            if init.get("lv") and not ty.strip().endswith("&&"):
+                lv = self.lval(init, env)            # the reference names that object
+                val = lv.get()
+                env[v["did"]] = val if isinstance(val, (Str, Vec, Stream, Lam)) else Alias(lv)
+            else:
+                env[v["did"]] = unmoved(self.eval(init, env))
+            return
+        val = self.eval(init, env)
+        if isinstance(val, Moved):
+            val = take(val)
+        env[v["did"]] = conv(val, ty)
+
+    def make_array(self, ty, init, env, name):
+        """array object for `T name[N] = {...}` / `= "..."`; constant arrays are tables"""
+        dim = ty[ty.index("[") + 1:ty.index("]")] if "[" in ty and "]" in ty else ""
+        n = int(dim) if dim.isdigit() else None
+        cells = list(init["bytes"]) if "bytes" in init else [self.eval(c, env) for c in kids(init)]
+        if n is not None and len(cells) < n:
+            cells += [0] * (n - len(cells))
+        elt = ty[:ty.index("[")] if "[" in ty else ty
+        it = int_type(elt)
+        if it is None or not all(isinstance(c, int) for c in cells):
+            raise Und("array %s of %s" % (name, elt))
+        return Ptr(Buf([c & ((1 << it[0]) - 1) for c in cells], "array %s" % name, kind="bytes" if it[0] == 8 else "vals",
+                       table="const" in elt.split()), 0)
+
+    def for_range(self, s, env):
+        ch = kids(s)
+        if len(ch) < 3:
+            raise Und("range-for shape")
+        rng, var, body = ch[0], ch[1], ch[2]
+        r = self.eval(rng, env)
+        if isinstance(r, (Str, Vec)):
+            buf, lo, hi = r.buf, 0, None
+        elif isinstance(r, View):
+            buf, lo, hi = r.buf, r.off, r.off + r.n
+        else:
+            raise Und("range-for over %s" % type(r).__name__)
+        if var is None or var["k"] != "VarDecl":
+            raise Und("range-for variable")
+        i = lo
+        ety = (var.get("ty") or "")
+        while i < (hi if hi is not None else len(buf.cells)):
+            self.tick()
+            lv = CellLV(buf, i, ety)
+            if ety.strip().endswith("&") and not ety.strip().startswith("const "):
+                env[var["did"]] = Alias(lv) if buf.kind != "objs" else lv.get()
+            else:
+                x = lv.get()
+                env[var["did"]] = x if buf.kind != "objs" or ety.strip().endswith("&") else cell_of(buf, x)
+            try:
+                self.exec(body, env)
+            except _Brk:
+                break
+            except _Cont:
+                pass
+            i += 1
+
+    def switch(self, s, env):
+        for key in ("init", "condvar"):
+            if isinstance(s.get(key), dict):
+                raise Und("switch with init statement")
+        c, body = kids(s)
+        v = self.eval(c, env)
+        if not isinstance(v, int):
+            raise Und("switch on %s" % type(v).__name__)
+        flat = []
+
+        def add(x):
+            if x is None:
+                return
+            if x["k"] == "CaseStmt":
+                if x.get("val") is None or len(kids(x)) != 1:
+                    raise Und("case label without a constant / case range")
+                flat.append(("case", int(x["val"])))
+                add(kids(x)[0])
+            elif x["k"] == "DefaultStmt":
+                flat.append(("default", None))
+                add(kids(x)[0])
+            else:
+                if any(y["k"] in ("CaseStmt", "DefaultStmt") for y in ir.walk(x) if y is not x and y["k"] != "SwitchStmt") and x["k"] != "SwitchStmt":
+                    raise Und("case label nested inside a statement")
+                flat.append(("stmt", x))
+        for x in (kids(body) if body is not None and body["k"] == "CompoundStmt" else [body]):
+            add(x)
+        start = None
+        for i, e in enumerate(flat):
+            if e[0] == "case" and e[1] == v:
+                start = i
+                break
+        if start is None:
+            for i, e in enumerate(flat):
+                if e[0] == "default":
+                    start = i
+                    break
+        if start is None:
+            return
+        try:
+            for e in flat[start:]:
+                if e[0] == "stmt":
+                    self.exec(e[1], env)
+        except _Brk:
+            pass
+
+    # ---------------------------------------------------------------- lvalues
+    def lval(self, e, env):
+        self.tick()
+        k = e["k"]
+        if k == "DeclRefExpr":
+            did = e["ref"]["id"]
+            if did not in env:
+                raise Und("lvalue of %s" % e["ref"].get("name"))
+            v = env[did]
+            if isinstance(v, (Str, Vec, Stream)):
+                return ObjLV(v)
+            return VarLV(env, did)
+        if k == "UnaryOperator":
+            op = e.get("op")
+            if op == "*":
+                p = self.eval(kids(e)[0], env)
+                if isinstance(p, Ptr):
+                    return CellLV(p.buf, p.off, e.get("ty"))
+                if isinstance(p, Ref):
+                    if p.obj is None:
+                        raise MemFault("a null pointer is dereferenced")
+                    return ObjLV(p.obj)
+                raise Und("dereference of %s" % type(p).__name__)
+            if op in ("++", "--") and not e.get("postfix"):
+                lv = self.lval(kids(e)[0], env)
+                lv.set(self.step(lv.get(), 1 if op == "++" else -1, e.get("ty")))
+                return lv
+        if k == "ArraySubscriptExpr":
+            a, b = self.eval(kids(e)[0], env), self.eval(kids(e)[1], env)
+            if isinstance(b, Ptr):
+                a, b = b, a
+            if isinstance(a, Ptr) and isinstance(b, int):
+                return CellLV(a.buf, a.off + b, e.get("ty"))
+            raise Und("subscript of %s by %s" % (type(a).__name__, type(b).__name__))
+        if k in ("BinaryOperator", "CompoundAssignOperator"):
+            op = e.get("op")
+            if op == ",":
+                self.eval(kids(e)[0], env)
+                return self.lval(kids(e)[1], env)
+            if op == "=" or k == "CompoundAssignOperator":
+                self.eval(e, env)
+                return self.lval(kids(e)[0], env) if self.pure_lvalue(kids(e)[0]) else self._bad("assignment result as lvalue")
+        if k == "ConditionalOperator":
+            c, a, b = kids(e)
+            return self.lval(a if truthy(self.eval(c, env)) else b, env)
+        if k in ("ImplicitCastExpr", "CXXStaticCastExpr", "CStyleCastExpr", "CXXConstCastExpr", "ParenExpr", "MaterializeTemporaryExpr",
+                 "ExprWithCleanups", "CXXBindTemporaryExpr") and kids(e):
+            if k == "ImplicitCastExpr" and e.get("cast") not in ("NoOp", "DerivedToBase", "UncheckedDerivedToBase", "LValueToRValue", None):
+                raise Und("lvalue through cast %s" % e.get("cast"))
+            return self.lval(kids(e)[0], env)
+        if "callee" in e:
+            r = self.call(e, env, want_lv=True)
+            if isinstance(r, (VarLV, CellLV, ObjLV)):
+                return r
+            if isinstance(r, (Str, Vec, Stream)):
+                return ObjLV(r)
+            raise Und("call result of %s used as an lvalue" % e["callee"].get("qname"))
+        raise Und("lvalue of %s at line %s" % (k, e.get("l")))
+
+    @staticmethod
+    def pure_lvalue(e):
+        while e is not None and e["k"] in ("ImplicitCastExpr", "ParenExpr") and kids(e):
+            e = kids(e)[0]
+        return e is not None and e["k"] == "DeclRefExpr"
+
+    @staticmethod
+    def _bad(msg):
+        raise Und(msg)
+
+    def step(self, v, d, ty):
+        if isinstance(v, Ptr):
+            return Ptr(v.buf, v.off + d)
+        if isinstance(v, int):
+            return conv(v + d, ty)
+        if v is UNINIT:
+            raise Und("read of an uninitialised variable")
+        raise Und("++/-- on %s" % type(v).__name__)
+
+    # ---------------------------------------------------------------- expressions
+    def eval(self, e, env):
+        if e is None:
+            raise Und("missing expression")
+        self.tick()
+        k = e["k"]
+        if "cval" in e and k != "VarDecl":
+            try:
+                return conv(int(e["cval"]), e.get("ty"))
+            except (TypeError, ValueError):
+                pass
+        if k in ("IntegerLiteral", "CharacterLiteral", "CXXBoolLiteralExpr"):
+            return int(e["val"])
+        if k == "DeclRefExpr":
+            did = e["ref"]["id"]
+            if did in env:
+                v = env[did]
+                if isinstance(v, Alias):
+                    v = v.lv.get()
+                if v is UNINIT:
+                    raise Und("read of uninitialised %s" % e["ref"].get("name"))
+                return v
+            if e["ref"].get("kind") == "global" and e["ref"].get("qname"):
+                for t in getattr(self.tu, "tables", []):
+                    if t.get("qname") == e["ref"]["qname"] and "const" in (t.get("elem_ty") or "").split() and int_type(t.get("elem_ty")):
+                        bits = int_type(t["elem_ty"])[0]
+                        vals = [int(x) & ((1 << bits) - 1) for x in t.get("values", [])]
+                        return Ptr(Buf(vals, "table %s" % e["ref"].get("name"), kind="bytes" if bits == 8 else "vals", table=True), 0)
+            raise Und("value of %s (%s)" % (e["ref"].get("name"), e["ref"].get("kind")))
+        if k == "StringLiteral" or (k != "VarDecl" and "bytes" in e):
+            return Ptr(Buf(list(e["bytes"]), "string literal", zterm=True, table=True), 0)
+        if k in ("CXXNullPtrLiteralExpr", "NullPtr", "GNUNullExpr"):
+            return Ptr(None, 0)
+        if k in ("ImplicitCastExpr", "CStyleCastExpr", "CXXStaticCastExpr", "CXXFunctionalCastExpr", "CXXReinterpretCastExpr", "CXXConstCastExpr"):
+            v = self.eval(kids(e)[0], env)
+            c = e.get("cast")
+            if c == "NullToPointer":
+                return Ptr(None, 0)
+            if c in ("IntegralToBoolean",):
+                return int(truthy(v))
+            if c == "PointerToBoolean":
+                return int(truthy(v))
+            if c in ("IntegralToFloating", "FloatingToIntegral", "FloatingCast", "IntegralToPointer", "PointerToIntegral"):
+                raise Und("cast %s" % c)
+            return conv(v, e.get("ty"))
+        if k in ("ParenExpr", "MaterializeTemporaryExpr", "ExprWithCleanups", "CXXBindTemporaryExpr", "ConstantExpr", "SubstNonTypeTemplateParmExpr"):
+            return self.eval(kids(e)[0], env)
+        if k == "UnaryOperator":
+            return self.unary(e, env)
+        if k == "BinaryOperator":
+            return self.binary(e, env)
+        if k == "CompoundAssignOperator":
+            op = e["op"][:-1]
+            rhs = self.eval(kids(e)[1], env)           # the right operand is sequenced first (C++17)
+            lv = self.lval(kids(e)[0], env)
+            cur = lv.get()
+            if cur is UNINIT:
+                raise Und("read of an uninitialised variable")
+            r = self.arith(op, conv(cur, e.get("cty")) if not isinstance(cur, Ptr) else cur, rhs, e.get("cty") or e.get("ty"))
+            r = conv(r, e.get("ty"))
+            lv.set(r)
+            return r
+        if k == "ConditionalOperator":
+            c, a, b = kids(e)
+            return self.eval(a if truthy(self.eval(c, env)) else b, env)
+        if k == "ArraySubscriptExpr":
+            a, b = self.eval(kids(e)[0], env), self.eval(kids(e)[1], env)
+            if isinstance(b, Ptr):
+                a, b = b, a
+            if isinstance(a, Ptr) and isinstance(b, (BV, Letter)):
+                return self.table_read(a, b, e.get("ty"))
+            if isinstance(a, Ptr) and isinstance(b, int):
+                return load(a.buf, a.off + b, e.get("ty"))
+            raise Und("subscript of %s by %s" % (type(a).__name__, type(b).__name__))
+        if k == "MemberExpr" and kids(e):
+            base = self.eval(kids(e)[0], env)
+            if isinstance(base, Pair) and e.get("member") in ("first", "second"):
+                return getattr(base, e["member"])
+            raise Und("member %s of %s" % (e.get("member"), type(base).__name__))
+        if k == "LambdaExpr":
+            if e.get("captures"):
+                raise Und("lambda with captures")
+            f = self.tu.by_did.get(e.get("fn"))
+            if f is None:
+                raise Und("lambda body not found")
+            return Lam(f)
+        if k == "DefaultArg":
+            return DEFAULT
+        if k == "CXXThrowExpr":
+            raise Thrown()
+        if k == "InitListExpr":
+            if "[" in (e.get("ty") or ""):
+                return self.make_array(e["ty"], e, env, "(initialiser list)")
+            raise Und("initialiser list of type %s" % e.get("ty"))
+        if "callee" in e:
+            r = self.call(e, env)
+            if isinstance(r, (VarLV, CellLV, ObjLV)):
+                r = r.get()
+            return r
+        raise Und("expression %s at line %s" % (k, e.get("l")))
+
+    def table_read(self, p, idx, ty):
+        buf = p.buf
+        if buf is None or not buf.table or p.off != 0:
+            raise Und("symbolic index into a non-constant array")
+        if isinstance(idx, Letter):
+            if len(buf.cells) != 256:
+                raise Und("input letter used as index of a table with %d entries" % len(buf.cells))
+            self.letter_tables = getattr(self, "letter_tables", [])
+            if not any(b is buf for b in self.letter_tables):
+                self.letter_tables.append(buf)
+            return BV([("u%d" % idx.k, j) if j < 6 else 0 for j in range(W)])
+        if idx.known():
+            return load(buf, idx.value(), ty)
+        return Enc(buf, idx)
+
+    def unary(self, e, env):
+        op = e.get("op")
+        a = kids(e)[0]
+        if op == "*":
+            p = self.eval(a, env)
+            if isinstance(p, Ptr):
+                return load(p.buf, p.off, e.get("ty"))
+            if isinstance(p, Ref):
+                if p.obj is None:
+                    raise MemFault("a null pointer is dereferenced")
+                return p.obj
+            raise Und("dereference of %s" % type(p).__name__)
+        if op == "&":
+            inner = a
+            while inner["k"] in ("ParenExpr",) and kids(inner):
+                inner = kids(inner)[0]
+            if inner["k"] in ("ArraySubscriptExpr",) or (inner["k"] == "UnaryOperator" and inner.get("op") == "*") or \
+                    ("callee" in inner and inner.get("op") in ("[]", "*")):
+                lv = self.lval(inner, env)
+                if isinstance(lv, CellLV):
+                    return Ptr(lv.buf, lv.off)
+                if isinstance(lv, ObjLV):
+                    return Ref(lv.obj)
+            v = self.eval(a, env)
+            if isinstance(v, (Str, Vec, Stream)):
+                return Ref(v)
+            raise Und("address of %s" % type(v).__name__)
+        if op in ("++", "--"):
+            lv = self.lval(a, env)
+            old = lv.get()
+            new = self.step(old, 1 if op == "++" else -1, e.get("ty") if not e.get("postfix") else a.get("ty"))
+            lv.set(new)
+            return old if e.get("postfix") else new
+        v = self.eval(a, env)
+        if op == "!":
+            return int(not truthy(v))
+        if isinstance(v, int):
+            if op == "-":
+                return conv(-v, e.get("ty"))
+            if op == "+":
+                return conv(v, e.get("ty"))
+            if op == "~":
+                return conv(~v, e.get("ty"))
+        raise Und("unary %s on %s" % (op, type(v).__name__))
+
+    def binary(self, e, env):
+        op = e["op"]
+        l, r = kids(e)
+        if op == ",":
+            self.eval(l, env)
+            return self.eval(r, env)
+        if op == "&&":
+            return int(truthy(self.eval(l, env)) and truthy(self.eval(r, env)))
+        if op == "||":
+            return int(truthy(self.eval(l, env)) or truthy(self.eval(r, env)))
+        if op == "=":
+            v = self.eval(r, env)
+            lv = self.lval(l, env)
+            if isinstance(lv, ObjLV):
+                lv.set(v)
+                return lv.obj
+            if isinstance(v, Moved):
+                v = take(v)
+            v = conv(v, l.get("ty"))
+            lv.set(v)
+            return v
+        a, b = self.eval(l, env), self.eval(r, env)
+        return self.arith(op, a, b, e.get("ty"))
+
+    def arith(self, op, a, b, ty):
+        if a is UNINIT or b is UNINIT:
+            raise Und("read of an uninitialised variable")
+        if isinstance(a, bool):
+            a = int(a)
+        if isinstance(b, bool):
+            b = int(b)
+        if isinstance(a, Ptr) or isinstance(b, Ptr):
+            return self.ptr_arith(op, a, b)
+        if isinstance(a, (BV, Letter, Enc)) or isinstance(b, (BV, Letter, Enc)):
+            r = bv_op(op, a, b, ty)
+            if r is not None:
+                return r
+            a = a.value() if isinstance(a, BV) else a
+            b = b.value() if isinstance(b, BV) else b
+        if not isinstance(a, int) or not isinstance(b, int):
+            raise Und("operator %s on %s and %s" % (op, type(a).__name__, type(b).__name__))
+        if op == "+":
+            r = a + b
+        elif op == "-":
+            r = a - b
+        elif op == "*":
+            r = a * b
+        elif op in ("/", "%"):
+            if b == 0:
+                raise MemFault("division by zero")
+            q = abs(a) // abs(b)
+            if (a < 0) != (b < 0):
+                q = -q
+            r = q if op == "/" else a - q * b
+        elif op == "&":
+            r = a & b
+        elif op == "|":
+            r = a | b
+        elif op == "^":
+            r = a ^ b
+        elif op in ("<<", ">>"):
+            it = int_type(ty)
+            if b < 0 or (it and b >= it[0]):
+                raise Und("shift by %d" % b)
+            r = a << b if op == "<<" else a >> b
+        elif op == "==":
+            return int(a == b)
+        elif op == "!=":
+            return int(a != b)
+        elif op == "<":
+            return int(a < b)
+        elif op == "<=":
+            return int(a <= b)
+        elif op == ">":
+            return int(a > b)
+        elif op == ">=":
+            return int(a >= b)
+        elif op == "<=>":
+            raise Und("three-way comparison")
+        else:
+            raise Und("operator %s" % op)
+        return conv(r, ty)
+
+    def ptr_arith(self, op, a, b):
+        if isinstance(a, Ptr) and isinstance(b, int):
+            if op == "+":
+                return Ptr(a.buf, a.off + b)
+            if op == "-":
+                return Ptr(a.buf, a.off - b)
+        if isinstance(a, int) and isinstance(b, Ptr) and op == "+":
+            return Ptr(b.buf, b.off + a)
+        if isinstance(a, Ptr) and isinstance(b, Ptr):
+            if a.buf is not b.buf:
+                if op in ("==", "!=") and (a.buf is None or b.buf is None):
+                    return int((op == "==") == (a.buf is b.buf))
+                raise Und("pointers into different objects combined with %s" % op)
+            if op == "-":
+                return a.off - b.off
+            if op in ("==", "!=", "<", "<=", ">", ">="):
+                return int({"==": a.off == b.off, "!=": a.off != b.off, "<": a.off < b.off, "<=": a.off <= b.off,
+                            ">": a.off > b.off, ">=": a.off >= b.off}[op])
+        raise Und("pointer arithmetic %s on %s and %s" % (op, type(a).__name__, type(b).__name__))
+
+    # ---------------------------------------------------------------- calls of library and project functions
+    def call(self, e, env, want_lv=False):
+        c = e["callee"]
+        q = c.get("qname") or ""
+        name = c.get("name") or ""
+        args = kids(e)
+        k = e["k"]
+        if k in ("CXXConstructExpr", "CXXTemporaryObjectExpr"):
+            return self.construct(e, env)
+        if k == "CXXOperatorCallExpr":
+            return self.opcall(e, env)
+        # project functions with a body are interpreted (string_view's own members are modelled natively)
+        callee = self.tu.by_did.get(c.get("did"))
+        if callee is not None and callee.body is not None and q.startswith("tlx::") and not q.startswith("tlx::StringView::") \
+                and not e.get("member_call") and callee.kind not in ("ctor", "dtor"):
+            return self.invoke(callee, self.bind_args(callee, args, env))
+        if e.get("member_call"):
+            obj = self.eval(args[0], env)
+            if isinstance(obj, Ref):
+                if obj.obj is None:
+                    raise MemFault("a member function is called through a null pointer")
+                obj = obj.obj
+            obj = unmoved(obj)
+            rest = args[1:]
+            if isinstance(obj, Str):
+                return self.str_method(obj, name, rest, env, e)
+            if isinstance(obj, View):
+                return self.view_method(obj, name, rest, env, e)
+            if isinstance(obj, Vec):
+                return self.vec_method(obj, name, rest, env, e)
+            if isinstance(obj, Stream):
+                if name == "str" and not rest:
+                    return Str(obj.s.buf.cells)
+                raise Und("stream member %s" % name)
+            if isinstance(obj, Ptr) and name == "base" and not rest:
+                return obj
+            raise Und("member %s of %s" % (q, type(obj).__name__))
+        return self.free_call(q, name, args, env, e)
+
+    def vals(self, nodes, env):
+        out = [self.eval(a, env) for a in nodes]
+        while out and out[-1] is DEFAULT:
+            out.pop()
+        if any(v is DEFAULT for v in out):
+            raise Und("default argument in the middle of an argument list")
+        return out
+
+    def construct(self, e, env):
+        kd = kind_of_type(e.get("ty"))
+        args = kids(e)
+        if kd == "str":
+            return self.make_str(self.vals(args, env))
+        if kd == "view":
+            return self.make_view(self.vals(args, env))
+        if kd == "vec":
+            vs = self.vals(args, env)
+            el = vec_elem(e.get("ty"))
+            if not vs:
+                return Vec((), el)
+            if len(vs) == 1 and isinstance(unmoved(vs[0]), Vec):
+                if isinstance(vs[0], Moved):
+                    return take(vs[0])
+                r = Vec((), vs[0].elem)
+                r.buf.cells = [cell_of(r.buf, x) for x in vs[0].buf.cells]
+                return r
+            raise Und("std::vector constructor with %d argument(s)" % len(vs))
+        if kd == "stream":
+            if args and any(a is not None and a["k"] != "DefaultArg" for a in args):
+                raise Und("stream constructor with arguments")
+            return Stream()
+        if len(args) == 1:
+            v = self.eval(args[0], env)
+            if isinstance(v, (Lam, Ptr, int)):
+                return v
+        raise Und("construction of %s" % e.get("ty"))
+
+    def make_str(self, vs):
+        if not vs:
+            return Str()
+        a = vs[0]
+        if len(vs) == 1:
+            if isinstance(a, Moved):
+                return take(a) if isinstance(a.obj, Str) else self._bad("std::string from moved %s" % type(a.obj).__name__)
+            if isinstance(a, Str):
+                return Str(a.buf.cells)
+            if isinstance(a, View):
+                return Str(view_cells(a))
+            if isinstance(a, Ptr):
+                return Str(cstr_cells(a))
+        if len(vs) == 2:
+            b = vs[1]
+            if isinstance(a, Ptr) and isinstance(b, Ptr):
+                return Str(range_cells(a, b))
+            if isinstance(a, Ptr) and isinstance(b, int):
+                return Str(ptr_n_cells(a, b))
+            if isinstance(a, int) and isinstance(b, int):
+                if a > 1 << 20:
+                    raise MemFault("a std::string of %d characters is requested" % a)
+                return Str([b & 0xFF] * a)
+        if len(vs) in (2, 3) and isinstance(a, Str) and all(isinstance(x, int) for x in vs[1:]):
+            pos = vs[1]
+            n = vs[2] if len(vs) == 3 else NPOS
+            if pos > len(a.buf.cells):
+                raise Thrown()
+            return Str(a.buf.cells[pos:pos + min(n, len(a.buf.cells))])
+        raise Und("std::string constructor (%s)" % ", ".join(type(v).__name__ for v in vs))
+
+    def make_view(self, vs):
+        if not vs:
+            return View(None, 0, 0)
+        a = vs[0]
+        if len(vs) == 1:
+            a = unmoved(a)
+            if isinstance(a, View):
+                return a
+            if isinstance(a, Str):
+                return View(a.buf, 0, len(a.buf.cells))
+            if isinstance(a, Ptr):
+                return View(a.buf, a.off, len(cstr_cells(a)))
+        if len(vs) == 2:
+            b = vs[1]
+            if isinstance(a, Ptr) and isinstance(b, int):
+                return View(a.buf, a.off, b)
+            if isinstance(a, Ptr) and isinstance(b, Ptr):
+                return View(a.buf, a.off, len(range_cells(a, b)))
+        raise Und("string_view constructor (%s)" % ", ".join(type(v).__name__ for v in vs))
+
+    def make_elem(self, vec, vs):
+        if vec.elem == "str":
+            return self.make_str(vs)
+        if vec.elem == "view":
+            return self.make_view(vs)
+        if vec.elem == "int" and len(vs) == 1 and isinstance(vs[0], int):
+            return vs[0]
+        raise Und("element of std::vector<%s>" % vec.elem)
+
+    # ---- std::string
+    def seq_arg(self, vs, what):
+        """the characters denoted by the trailing arguments (str | view | cstr | ptr,n | n,ch | ch)"""
+        if len(vs) == 1:
+            a = unmoved(vs[0])
+            if isinstance(a, Str):
+                return list(a.buf.cells)
+            if isinstance(a, View):
+                return view_cells(a)
+            if isinstance(a, Ptr):
+                return cstr_cells(a)
+            if isinstance(a, (int, BV, Enc, Letter)):
+                return [a]
+        if len(vs) == 2:
+            a, b = vs
+            if isinstance(a, Ptr) and isinstance(b, int):
+                return ptr_n_cells(a, b)
+            if isinstance(a, Ptr) and isinstance(b, Ptr):
+                return range_cells(a, b)
+            if isinstance(a, int) and isinstance(b, int):
+                if a > 1 << 20:
+                    raise MemFault("%d characters are requested" % a)
+                return [b] * a
+        raise Und("%s (%s)" % (what, ", ".join(type(v).__name__ for v in vs)))
+
+    def append(self, s, cells):
+        if len(s.buf.cells) + len(cells) > 1 << 16:
+            raise Hang("a string grows beyond %d characters" % (1 << 16))
+        s.buf.cells.extend(cell_of(s.buf, c) for c in cells)
+
+    def str_method(self, s, name, rest, env, e):
+        cells = s.buf.cells
+        n = len(cells)
+        if name in ("size", "length"):
+            return n
+        if name == "empty":
+            return int(n == 0)
+        if name in ("reserve", "shrink_to_fit"):
+            self.vals(rest, env)
             return None
-        b = match.binop(s, ("=", "|=", "+="))
-        if b:
-            lhs = strip_casts(b[1])
-            if b[0] == "+=" and ir.ref_name(lhs) == "out":
-                rhs = strip_casts(b[2])
-                p = match.index_parts(rhs)
-                if p and ir.ref_name(p[0]) == "encoding64":
-                    self.out.append(("sextet", self.value(p[1])))
-                elif const_int(rhs) is not None and rhs["k"] == "CharacterLiteral":
-                    self.out.append(("char", const_int(rhs)))
-                else:
-                    self.out.append(("byte", self.value(rhs)))
-                return None
-            if lhs["k"] == "DeclRefExpr":
-                v = self.value(b[2])
-                if b[0] == "|=":
-                    old = self.env.get(ref_of(lhs))
-                    v = [x if y == 0 else y if x == 0 else None for x, y in zip(old, v)] if old and v else None
-                self.env[ref_of(lhs)] = v
-                return None
-        return None
+        if name == "clear":
+            s.buf.cells = []
+            return None
+        if name in ("begin", "cbegin", "data", "c_str"):
+            return Ptr(s.buf, 0)
+        if name in ("end", "cend"):
+            return Ptr(s.buf, n)
+        vs = self.vals(rest, env)
+        if name == "push_back" and len(vs) == 1:
+            self.append(s, [vs[0]])
+            return None
+        if name == "pop_back" and not vs:
+            if not n:
+                raise MemFault("pop_back() on an empty std::string")
+            cells.pop()
+            return None
+        if name in ("append", "operator+="):
+            self.append(s, self.seq_arg(vs, "std::string::append"))
+            return s
+        if name == "assign":
+            s.buf.cells = [cell_of(s.buf, c) for c in self.seq_arg(vs, "std::string::assign")]
+            return s
+        if name == "resize" and vs and isinstance(vs[0], int):
+            m = vs[0]
+            if m > 1 << 20:
+                raise MemFault("a std::string is resized to %d characters" % m)
+            fill = vs[1] & 0xFF if len(vs) > 1 and isinstance(vs[1], int) else 0
+            s.buf.cells = cells[:m] + [fill] * max(0, m - n)
+            return None
+        if name in ("at", "operator[]") and len(vs) == 1 and isinstance(vs[0], int):
+            i = vs[0]
+            if name == "at" and i >= n:
+                raise Thrown()
+            return CellLV(s.buf, i, e.get("ty"))
+        if name == "front" and not vs:
+            if not n:
+                raise MemFault("front() of an empty std::string")
+            return CellLV(s.buf, 0, e.get("ty"))
+        if name == "back" and not vs:
+            if not n:
+                raise MemFault("back() of an empty std::string")
+            return CellLV(s.buf, n - 1, e.get("ty"))
+        if name in ("find", "rfind", "find_first_of", "find_last_of", "find_first_not_of", "find_last_not_of"):
+            return self.find_family(cells, name, vs)
+        if name == "substr":
+            pos = vs[0] if vs else 0
+            cnt = vs[1] if len(vs) > 1 else NPOS
+            if pos > n:
+                raise Thrown()
+            return Str(cells[pos:pos + min(cnt, n)])
+        if name == "erase" and all(isinstance(v, int) for v in vs):
+            pos = vs[0] if vs else 0
+            cnt = vs[1] if len(vs) > 1 else NPOS
+            if pos > n:
+                raise Thrown()
+            del cells[pos:pos + min(cnt, n)]
+            return s
+        if name == "replace" and len(vs) >= 3 and isinstance(vs[0], int) and isinstance(vs[1], int):
+            pos, cnt = vs[0], vs[1]
+            if pos > n:
+                raise Thrown()
+            new = [cell_of(s.buf, c) for c in self.seq_arg(vs[2:], "std::string::replace")]
+            if n + len(new) > 1 << 16:
+                raise Hang("a string grows beyond %d characters" % (1 << 16))
+            cells[pos:pos + min(cnt, n)] = new
+            return s
+        if name == "insert" and len(vs) >= 2 and isinstance(vs[0], int):
+            pos = vs[0]
+            if pos > n:
+                raise Thrown()
+            new = [cell_of(s.buf, c) for c in self.seq_arg(vs[1:], "std::string::insert")]
+            if n + len(new) > 1 << 16:
+                raise Hang("a string grows beyond %d characters" % (1 << 16))
+            cells[pos:pos] = new
+            return s
+        if name == "compare" and len(vs) == 1:
+            o = self.seq_arg(vs, "compare")
+            a, b = bytes(all_int(cells)), bytes(all_int(o))
+            return (a > b) - (a < b)
+        if name == "operator=" and len(vs) == 1:
+            assign_obj(s, vs[0])
+            return s
+        raise Und("std::string::%s with (%s)" % (name, ", ".join(type(v).__name__ for v in vs)))
+
+    def find_family(self, cells, name, vs):
+        if not vs:
+            raise Und("%s without arguments" % name)
+        a = unmoved(vs[0])
+        if isinstance(a, int):
+            needle, rest = [a & 0xFF], vs[1:]
+        elif isinstance(a, (Str, View)):
+            needle, rest = (list(a.buf.cells) if isinstance(a, Str) else view_cells(a)), vs[1:]
+        elif isinstance(a, Ptr):
+            if len(vs) >= 3:
+                needle, rest = ptr_n_cells(a, vs[2]), vs[1:2]
+            else:
+                needle, rest = cstr_cells(a), vs[1:]
+        else:
+            raise Und("%s(%s)" % (name, type(a).__name__))
+        backwards = name in ("rfind", "find_last_of", "find_last_not_of")
+        pos = rest[0] if rest else (NPOS if backwards else 0)
+        if not isinstance(pos, int) or len(rest) > 1:
+            raise Und("%s position argument" % name)
+        if name == "find":
+            return find_sub(cells, needle, pos)
+        if name == "rfind":
+            return rfind_sub(cells, needle, pos)
+        return find_of(cells, needle, pos, first=not backwards, member="not" not in name)
+
+    # ---- string_view
+    def view_method(self, v, name, rest, env, e):
+        if name in ("size", "length"):
+            return v.n
+        if name == "empty":
+            return int(v.n == 0)
+        if name in ("begin", "cbegin", "data"):
+            return Ptr(v.buf, v.off)
+        if name in ("end", "cend"):
+            return Ptr(v.buf, v.off + v.n)
+        vs = self.vals(rest, env)
+        if name in ("at", "operator[]") and len(vs) == 1 and isinstance(vs[0], int):
+            if name == "at" and vs[0] >= v.n:
+                raise Thrown()
+            if vs[0] >= v.n:
+                raise MemFault("a string_view of %d byte(s) is read at index %d" % (v.n, vs[0]))
+            return load(v.buf, v.off + vs[0], e.get("ty"))
+        if name in ("front", "back") and not vs:
+            if not v.n:
+                raise MemFault("%s() of an empty string_view" % name)
+            return load(v.buf, v.off + (0 if name == "front" else v.n - 1), e.get("ty"))
+        if name == "substr":
+            pos = vs[0] if vs else 0
+            cnt = vs[1] if len(vs) > 1 else NPOS
+            if pos > v.n:
+                raise Thrown()
+            return View(v.buf, v.off + pos, min(cnt, v.n - pos))
+        if name in ("find", "rfind", "find_first_of", "find_last_of", "find_first_not_of", "find_last_not_of"):
+            return self.find_family(view_cells(v), name, vs)
+        if name in ("to_string", "str") and not vs:
+            return Str(view_cells(v))
+        if name == "compare" and len(vs) == 1:
+            a, b = bytes(all_int(view_cells(v))), bytes(all_int(self.seq_arg(vs, "compare")))
+            return (a > b) - (a < b)
+        raise Und("string_view::%s with (%s)" % (name, ", ".join(type(x).__name__ for x in vs)))
+
+    # ---- std::vector
+    def vec_method(self, vec, name, rest, env, e):
+        cells = vec.buf.cells
+        n = len(cells)
+        if name == "size":
+            return n
+        if name == "empty":
+            return int(n == 0)
+        if name == "clear":
+            vec.buf.cells = []
+            return None
+        if name in ("reserve", "shrink_to_fit"):
+            self.vals(rest, env)
+            return None
+        if name in ("begin", "cbegin", "data"):
+            return Ptr(vec.buf, 0)
+        if name in ("end", "cend"):
+            return Ptr(vec.buf, n)
+        vs = self.vals(rest, env)
+        if name == "resize" and len(vs) == 1 and isinstance(vs[0], int):
+            m = vs[0]
+            if m > 1 << 12:
+                raise MemFault("a std::vector is resized to %d elements" % m)
+            vec.buf.cells = cells[:m] + [self.make_elem(vec, []) if vec.elem in ("str", "view") else 0 for _ in range(max(0, m - n))]
+            return None
+        if name in ("emplace_back", "push_back"):
+            if n >= 1 << 12:
+                raise Hang("a vector grows beyond %d elements" % (1 << 12))
+            if name == "push_back" and len(vs) != 1:
+                raise Und("push_back arity")
+            if vec.elem == "?":
+                raise Und("element type of the vector")
+            el = self.make_elem(vec, vs)
+            cells.append(el)
+            return CellLV(vec.buf, len(cells) - 1)
+        if name == "pop_back" and not vs:
+            if not n:
+                raise MemFault("pop_back() on an empty std::vector")
+            cells.pop()
+            return None
+        if name in ("at", "operator[]") and len(vs) == 1 and isinstance(vs[0], int):
+            if name == "at" and vs[0] >= n:
+                raise Thrown()
+            return CellLV(vec.buf, vs[0], e.get("ty"))
+        if name in ("front", "back") and not vs:
+            if not n:
+                raise MemFault("%s() of an empty std::vector" % name)
+            return CellLV(vec.buf, 0 if name == "front" else n - 1, e.get("ty"))
+        if name == "operator=" and len(vs) == 1:
+            assign_obj(vec, vs[0])
+            return vec
+        raise Und("std::vector::%s with (%s)" % (name, ", ".join(type(x).__name__ for x in vs)))
+
+    # ---- overloaded operators
+    def opcall(self, e, env):
+        op = e.get("op")
+        args = kids(e)
+        c = e["callee"]
+        name = c.get("name") or ""
+        lv0 = None
+        if op in ("++", "--", "+=", "-=", "="):
+            lv0 = self.lval(args[0], env)
+            first = lv0.get()
+            if first is UNINIT and op != "=":
+                raise Und("read of an uninitialised variable")
+        else:
+            first = self.eval(args[0], env)
+        if isinstance(first, Ref) and op in ("->", "*"):
+            return first.obj
+        if isinstance(first, Lam) and op == "()":
+            return self.invoke(first.fn, self.bind_args(first.fn, args[1:], env))
+        if isinstance(first, Ptr) and op in _PTR_OPS:
+            if op == "*" and len(args) == 1:
+                return CellLV(first.buf, first.off, e.get("ty"))
+            if op == "->":
+                return first
+            if op in ("++", "--"):
+                new = Ptr(first.buf, first.off + (1 if op == "++" else -1))
+                lv0.set(new)
+                return first if len(args) == 2 else lv0
+            b = self.eval(args[1], env)
+            if op == "[]":
+                if not isinstance(b, int):
+                    raise Und("iterator subscript")
+                return CellLV(first.buf, first.off + b, e.get("ty"))
+            if op in ("+=", "-="):
+                new = self.ptr_arith(op[0], first, b)
+                lv0.set(new)
+                return lv0
+            if isinstance(unmoved(b), (Str, View)):         # "literal" + std::string, C string == std::string
+                return self.string_binop(op, first, unmoved(b), c)
+            return self.ptr_arith(op, first, b)
+        if op == "=" and len(args) == 2 and isinstance(lv0, (VarLV, CellLV)):
+            v = self.eval(args[1], env)
+            if isinstance(v, (Ptr, int, View)):
+                lv0.set(v)
+                return lv0
+            raise Und("operator= of %s" % type(v).__name__)
+        if isinstance(first, int) and not isinstance(first, bool) and len(args) == 2 and op in ("+", "==", "!=", "<", ">", "<=", ">="):
+            b = self.eval(args[1], env)
+            if isinstance(b, Ptr) and op == "+":
+                return self.ptr_arith("+", first, b)
+            if isinstance(b, int) and op != "+" and "ordering" in (args[0].get("ty") or ""):
+                return self.arith(op, first, b, "bool")          # (x <=> y) OP 0
+            if not isinstance(unmoved(b), (Str, View)):
+                raise Und("operator%s on an integer and %s" % (op, type(b).__name__))
+            return self.string_binop(op, first, unmoved(b), c)
+        obj = unmoved(first)
+        if isinstance(obj, Stream) and op == "<<":
+            x = self.eval(args[1], env)
+            ty = args[1].get("ty") or ""
+            if isinstance(x, int) and _bare(ty) not in ("char", "unsigned char", "signed char"):
+                self.append(obj.s, list(str(x).encode()))
+            else:
+                self.append(obj.s, self.seq_arg([x], "operator<<"))
+            return obj
+        if isinstance(obj, Str):
+            if op == "+=":
+                self.append(obj, self.seq_arg(self.vals(args[1:], env), "std::string::operator+="))
+                return obj
+            if op == "=":
+                assign_obj(obj, self.eval(args[1], env))
+                return obj
+            if op == "[]":
+                return self.str_method(obj, "operator[]", args[1:], env, e)
+        if isinstance(obj, View) and op == "[]":
+            return self.view_method(obj, "operator[]", args[1:], env, e)
+        if isinstance(obj, Vec):
+            if op == "[]":
+                return self.vec_method(obj, "operator[]", args[1:], env, e)
+            if op == "=":
+                assign_obj(obj, self.eval(args[1], env))
+                return obj
+        if len(args) == 2 and op in ("+", "==", "!=", "<", ">", "<=", ">=", "<=>"):
+            b = unmoved(self.eval(args[1], env))
+            if isinstance(obj, (Str, View, Ptr, int)) and isinstance(b, (Str, View, Ptr, int)) and (isinstance(obj, (Str, View)) or isinstance(b, (Str, View))):
+                return self.string_binop(op, obj, b, c)
+        raise Und("operator%s on %s (%s)" % (op, type(first).__name__, c.get("qname")))
+
+    def string_binop(self, op, a, b, c):
+        if op not in ("+", "==", "!=", "<", ">", "<=", ">=", "<=>"):
+            raise Und("operator%s on strings (%s)" % (op, c.get("qname")))
+        x, y = self.seq_arg([a], "string operand"), self.seq_arg([b], "string operand")
+        if op == "+":
+            return Str(x + y)
+        x, y = bytes(all_int(x)), bytes(all_int(y))
+        if op == "<=>":
+            return (x > y) - (x < y)
+        return int({"==": x == y, "!=": x != y, "<": x < y, ">": x > y, "<=": x <= y, ">=": x >= y}[op])
+
+    # ---- free functions
+    def free_call(self, q, name, args, env, e):
+        std = q.startswith("std::") or "::" not in q
+        if q in ("tlx::to_lower", "tlx::to_upper") and len(args) == 1 and int_type(e.get("ty")):
+            v = self.eval(args[0], env)
+            if isinstance(v, int):
+                u = v & 0xFF
+                if q.endswith("lower") and 65 <= u <= 90:
+                    u += 32
+                elif q.endswith("upper") and 97 <= u <= 122:
+                    u -= 32
+                return conv(u, e.get("ty"))
+            raise Und("%s of %s" % (q, type(v).__name__))
+        if not std:
+            raise Und("call of %s (no body in this translation unit)" % q)
+        if name in ("move", "forward") and len(args) == 1:
+            v = self.eval(args[0], env)
+            return Moved(v) if name == "move" and isinstance(v, (Str, Vec)) else v
+        if name in ("tolower", "toupper") and len(args) == 1:
+            v = self.eval(args[0], env)
+            if isinstance(v, int):
+                if name == "tolower" and 65 <= v <= 90:
+                    return v + 32
+                if name == "toupper" and 97 <= v <= 122:
+                    return v - 32
+                return v
+        vs = self.vals(args, env)
+        vs = [unmoved(v) for v in vs]
+        if name in ("min", "max") and len(vs) == 2:
+            a, b = vs
+            if isinstance(a, int) and isinstance(b, int):
+                return min(a, b) if name == "min" else max(a, b)
+            if isinstance(a, Ptr) and isinstance(b, Ptr) and a.buf is b.buf:
+                return (a if a.off <= b.off else b) if name == "min" else (a if a.off >= b.off else b)
+        if name == "strlen" and len(vs) == 1 and isinstance(vs[0], Ptr):
+            return len(cstr_cells(vs[0]))
+        if name in ("next", "prev") and vs and isinstance(vs[0], Ptr) and (len(vs) == 1 or isinstance(vs[1], int)):
+            d = vs[1] if len(vs) > 1 else 1
+            return Ptr(vs[0].buf, vs[0].off + (d if name == "next" else -d))
+        if name == "advance" and len(vs) == 2 and isinstance(vs[0], Ptr) and isinstance(vs[1], int):
+            self.lval(args[0], env).set(Ptr(vs[0].buf, vs[0].off + vs[1]))
+            return None
+        if name == "distance" and len(vs) == 2 and isinstance(vs[0], Ptr) and isinstance(vs[1], Ptr):
+            return self.ptr_arith("-", vs[1], vs[0])
+        if name in ("begin", "cbegin", "end", "cend", "size", "empty", "data") and len(vs) == 1 and isinstance(vs[0], (Str, View, Vec)):
+            o = vs[0]
+            return (self.str_method if isinstance(o, Str) else self.view_method if isinstance(o, View) else self.vec_method)(o, name, [], env, e)
+        if name in ("equal", "lexicographical_compare", "find", "find_if", "find_if_not", "search", "any_of", "all_of", "none_of", "count", "count_if",
+                    "mismatch", "memcmp", "strncmp", "strcmp", "memchr", "copy", "fill", "strcasecmp", "strncasecmp"):
+            return self.algorithm(name, vs)
+        raise Und("call of %s with (%s)" % (q, ", ".join(type(v).__name__ for v in vs)))
+
+    def rd(self, p):
+        v = load(p.buf, p.off)
+        if p.buf.kind == "bytes" and isinstance(v, int):
+            return v - 256 if v >= 128 else v        # elements are read as (signed) char
+        return v
+
+    def algorithm(self, name, vs):
+        P = lambda x: isinstance(x, Ptr)
+        if name == "equal" and len(vs) >= 3 and P(vs[0]) and P(vs[1]) and P(vs[2]):
+            a, ae, b = vs[0], vs[1], vs[2]
+            be, pred = None, None
+            rest = vs[3:]
+            if rest and P(rest[0]):
+                be, rest = rest[0], rest[1:]
+            if rest:
+                pred, rest = rest[0], rest[1:]
+            if rest or a.buf is not ae.buf or (be is not None and be.buf is not b.buf):
+                raise Und("std::equal argument shape")
+            if be is not None and (ae.off - a.off) != (be.off - b.off):
+                return 0
+            i, j = a.off, b.off
+            while i < ae.off:
+                self.tick()
+                x, y = self.rd(Ptr(a.buf, i)), self.rd(Ptr(b.buf, j))
+                ok = truthy(self.apply(pred, [x, y])) if pred is not None else self.same(x, y)
+                if not ok:
+                    return 0
+                i, j = i + 1, j + 1
+            return 1
+        if name == "lexicographical_compare" and len(vs) in (4, 5) and all(P(x) for x in vs[:4]):
+            a, ae, b, be = vs[:4]
+            pred = vs[4] if len(vs) == 5 else None
+            if a.buf is not ae.buf or b.buf is not be.buf:
+                raise Und("iterator pairs into different objects")
+            i, j = a.off, b.off
+            less = (lambda x, y: truthy(self.apply(pred, [x, y]))) if pred is not None else (lambda x, y: self.lt(x, y))
+            while i < ae.off and j < be.off:
+                self.tick()
+                x, y = self.rd(Ptr(a.buf, i)), self.rd(Ptr(b.buf, j))
+                if less(x, y):
+                    return 1
+                if less(y, x):
+                    return 0
+                i, j = i + 1, j + 1
+            return int(i >= ae.off and j < be.off)
+        if name in ("find", "find_if", "find_if_not", "any_of", "all_of", "none_of", "count", "count_if") and len(vs) == 3 and P(vs[0]) and P(vs[1]):
+            a, ae, x = vs
+            if a.buf is not ae.buf:
+                raise Und("iterator pair into different objects")
+            test = (lambda y: self.same(y, x)) if name in ("find", "count") else (lambda y: truthy(self.apply(x, [y])))
+            if name in ("find", "count") and not isinstance(x, int):
+                raise Und("std::%s for a %s" % (name, type(x).__name__))
+            hits = 0
+            i = a.off
+            while i < ae.off:
+                self.tick()
+                t = test(self.rd(Ptr(a.buf, i)))
+                if name in ("find", "find_if", "any_of", "none_of") and t:
+                    break
+                if name in ("find_if_not", "all_of") and not t:
+                    break
+                hits += int(t)
+                i += 1
+            if name in ("find", "find_if", "find_if_not"):
+                return Ptr(a.buf, i)
+            if name in ("count", "count_if"):
+                return hits
+            if name == "any_of":
+                return int(i < ae.off)
+            return int(i >= ae.off)
+        if name == "mismatch" and len(vs) in (3, 4, 5) and P(vs[0]) and P(vs[1]) and P(vs[2]):
+            a, ae, b = vs[:3]
+            rest = vs[3:]
+            be = rest.pop(0) if rest and P(rest[0]) else None
+            pred = rest.pop(0) if rest else None
+            if rest or a.buf is not ae.buf or (be is not None and be.buf is not b.buf):
+                raise Und("std::mismatch argument shape")
+            i, j = a.off, b.off
+            while i < ae.off and (be is None or j < be.off):
+                self.tick()
+                x, y = self.rd(Ptr(a.buf, i)), self.rd(Ptr(b.buf, j))
+                if not (truthy(self.apply(pred, [x, y])) if pred is not None else self.same(x, y)):
+                    break
+                i, j = i + 1, j + 1
+            return Pair(Ptr(a.buf, i), Ptr(b.buf, j))
+        if name in ("strcasecmp", "strncasecmp") and len(vs) in (2, 3) and P(vs[0]) and P(vs[1]):
+            lim = vs[2] if len(vs) == 3 else None
+            i = 0
+            while lim is None or i < lim:
+                self.tick()
+                x, y = load(vs[0].buf, vs[0].off + i), load(vs[1].buf, vs[1].off + i)
+                if not isinstance(x, int) or not isinstance(y, int):
+                    raise Und("symbolic bytes compared")
+                x, y = (x + 32 if 65 <= x <= 90 else x), (y + 32 if 65 <= y <= 90 else y)
+                if x != y:
+                    return x - y
+                if x == 0:
+                    break
+                i += 1
+            return 0
+        if name == "search" and len(vs) == 4 and all(P(x) for x in vs):
+            a, ae, b, be = vs
+            hay, nd = all_int(range_cells(a, ae)), all_int(range_cells(b, be))
+            r = bytes(hay).find(bytes(nd))
+            return Ptr(a.buf, ae.off if r < 0 else a.off + r)
+        if name in ("memcmp", "strncmp") and len(vs) == 3 and P(vs[0]) and P(vs[1]) and isinstance(vs[2], int):
+            for i in range(vs[2]):
+                x, y = load(vs[0].buf, vs[0].off + i), load(vs[1].buf, vs[1].off + i)
+                if not isinstance(x, int) or not isinstance(y, int):
+                    raise Und("symbolic bytes compared")
+                if x != y:
+                    return -1 if x < y else 1
+                if name == "strncmp" and x == 0:
+                    break
+            return 0
+        if name == "strcmp" and len(vs) == 2 and P(vs[0]) and P(vs[1]):
+            x, y = bytes(cstr_cells(vs[0])), bytes(cstr_cells(vs[1]))
+            return (x > y) - (x < y)
+        if name == "memchr" and len(vs) == 3 and P(vs[0]) and isinstance(vs[1], int) and isinstance(vs[2], int):
+            for i in range(vs[2]):
+                if load(vs[0].buf, vs[0].off + i) == (vs[1] & 0xFF):
+                    return Ptr(vs[0].buf, vs[0].off + i)
+            return Ptr(None, 0)
+        if name == "copy" and len(vs) == 3 and all(P(x) for x in vs):
+            cells = range_cells(vs[0], vs[1])
+            for i, c in enumerate(cells):
+                store(vs[2].buf, vs[2].off + i, c)
+            return Ptr(vs[2].buf, vs[2].off + len(cells))
+        if name == "fill" and len(vs) == 3 and P(vs[0]) and P(vs[1]):
+            for i in range(vs[0].off, vs[1].off):
+                store(vs[0].buf, i, vs[2])
+            return None
+        raise Und("std::%s with (%s)" % (name, ", ".join(type(v).__name__ for v in vs)))
+
+    @staticmethod
+    def same(x, y):
+        if isinstance(x, int) and isinstance(y, int):
+            return (x & 0xFF) == (y & 0xFF) if -128 <= x < 256 and -128 <= y < 256 else x == y
+        raise Und("comparison of %s and %s" % (type(x).__name__, type(y).__name__))
+
+    @staticmethod
+    def lt(x, y):
+        if isinstance(x, int) and isinstance(y, int):
+            return x < y
+        raise Und("ordering of %s and %s" % (type(x).__name__, type(y).__name__))
+
+
+# ------------------------------------------------------------------ running one function on one input
+def view_of(bs):
+    bs = list(bs)
+    return View(Buf(bs, "data of a string_view"), 0, len(bs))
+
+
+def cstr_of(bs):
+    bs = list(bs)
+    return Ptr(Buf(bs + [0], "C string incl. its terminator"), 0)
+
+
+def data_of(cells):
+    cells = list(cells)
+    return Ptr(Buf(cells, "input buffer"), 0)
+
+
+def concrete(v):
+    """python value of a machine value (bytes for strings, list for vectors)"""
+    v = unmoved(v)
+    if isinstance(v, Str):
+        return bytes(all_int(v.buf.cells))
+    if isinstance(v, View):
+        return bytes(all_int(view_cells(v)))
+    if isinstance(v, Vec):
+        return [concrete(x) for x in v.buf.cells]
+    if isinstance(v, Ref):
+        return concrete(v.obj)
+    if isinstance(v, (int, type(None))):
+        return v
+    raise Und("result of kind %s" % type(v).__name__)
+
+
+def attempt(tu, fn, args, budget=500000):
+    """-> ('ok', machine value) | ('throw', None) | ('fault', text) | ('hang', text); Undecidable propagates"""
+    m = Mach(tu, budget)
+    try:
+        return "ok", m.invoke(fn, args), m
+    except Thrown:
+        return "throw", None, m
+    except MemFault as f:
+        return "fault", str(f), m
+    except Hang as h:
+        return "hang", str(h), m
+    except RecursionError:
+        raise Und("%s: expression nesting too deep for the evaluator" % fn.loc)
+    except (KeyError, IndexError, TypeError, AttributeError, ValueError) as x:
+        raise Und("%s: tree shape not handled by the evaluator (%s: %s)" % (fn.loc, type(x).__name__, x))
+
+
+def outcome(tu, fn, args, budget=500000):
+    """like attempt, with the result made concrete: ('ok', python value) | ('throw',) | ('fault', text) | ('hang', text)"""
+    st, v, _ = attempt(tu, fn, args, budget)
+    if st == "ok":
+        return ("ok", concrete(v))
+    if st == "throw":
+        return ("throw",)
+    return (st, v)
+
+
+def show(o):
+    if o[0] == "ok":
+        return "returns %r" % (o[1],)
+    if o[0] == "throw":
+        return "throws"
+    if o[0] == "fault":
+        return "faults (%s)" % o[1]
+    return "does not finish (%s)" % o[1]
+
+
+def pkind(ty):
+    t = _bare(ty)
+    if t.endswith("*"):
+        inner = kind_of_type(t[:-1])
+        return "ref:" + inner if inner else "ptr"
+    k = kind_of_type(t)
+    if k:
+        return k
+    if int_type(t):
+        return "char" if _bare(t) in ("char", "signed char", "unsigned char") else "int"
+    return "?"
+
+
+def sig_of(fn):
+    return tuple(pkind(p.get("ty")) for p in fn.params)
+
+
+def overloads(tu, qname):
+    return [f for f in tu.functions if f.qname == qname and f.body is not None]
+
+
+def the_overload(tu, qname, sig):
+    fs = [f for f in overloads(tu, qname) if sig_of(f) == tuple(sig)]
+    if len(fs) != 1:
+        raise ir.AnalysisBroken("%s: expected exactly one overload %s(%s), found %d" % (tu.src, qname, ", ".join(sig), len(fs)))
+    return fs[0]
+
+
+def located(fn, thunk):
+    """runs thunk; a construct the machine does not model is reported with the function it occurred in"""
+    try:
+        return thunk()
+    except dtable.Undecidable as u:
+        if str(u).startswith("tlx/") or str(u).startswith(fn.loc):
+            raise
+        raise dtable.Undecidable("%s: %s not evaluated: %s" % (fn.loc, fn.qname, u))
+
+
+# ------------------------------------------------------------------ base64
+RFC_ALPHABET = "ABCDEFGHIJKLMNOPQRSTUVWXYZabcdefghijklmnopqrstuvwxyz0123456789+/"
+B64_SKIPPED = (9, 10, 13, 32, 61)          # whitespace and the padding character
 
 
 def check_base64(ck, tu):
-    enc = [f for f in tu.find(qname="tlx::base64_encode") if len(f.params) == 3][0]
-    dec = [f for f in tu.find(qname="tlx::base64_decode") if len(f.params) == 3][0]
-    e64 = local_table(enc, "encoding64")
-    d64 = local_table(dec, "decoding64")
-    ws, ex = local_const(dec, "ws"), local_const(dec, "ex")
-    okt = True
-    if "".join(chr(c) for c in e64) != RFC_ALPHABET:
-        ck.violation("B64-TABLES", enc.qname, "alphabet", "the encoder alphabet is not the RFC 4648 alphabet", enc.loc)
-        okt = False
-    if len(d64) != 256 or ws is None or ex is None or ws < 64 or ex < 64:
-        ck.violation("B64-TABLES", dec.qname, "table-shape", "decoder table must have 256 entries and special values >= 64", dec.loc)
-        okt = False
-    else:
-        for i, c in enumerate(e64):
-            if d64[c] != i:
-                ck.violation("B64-TABLES", dec.qname, "inverse:%s" % chr(c), "decoding64[%r] = %s, must be %d (inverse of the encoder alphabet)" % (chr(c), d64[c], i), dec.loc)
-                okt = False
-                break
-        for c in (9, 10, 13, 32, ord("=")):
-            if d64[c] != ws:
-                ck.violation("B64-TABLES", dec.qname, "skip:%d" % c, "character %r must be skipped (padding / whitespace) but maps to %s" % (chr(c), d64[c]), dec.loc)
-                okt = False
-        extra = [i for i in range(256) if d64[i] not in (ex,) and i not in e64 and i not in (9, 10, 13, 32, 61)]
-        if extra:
-            ck.violation("B64-TABLES", dec.qname, "extra:%d" % extra[0], "character %r is accepted although it is not in the alphabet" % chr(extra[0]), dec.loc)
-            okt = False
-    if okt:
-        ck.ok("B64-TABLES", "base64", "alphabet = RFC 4648; decoder table inverts it on all 64 letters; '=' and whitespace skipped; 187 other bytes rejected")
-    # ---- skip loops of the decoder: continue exactly for the special values
-    loops = [x for x in dec.nodes() if x["k"] == "DoStmt"]
-    ck.require(len(loops) == 4, "%s: expected four letter-reading loops" % dec.loc)
-    oks = True
-    for i, l in enumerate(loops):
-        cond = kids(l)[1]
-        b = match.binop(cond, (">=", ">", "==", "!=", "<", "<="))
-        if not b:
-            raise dtable.Undecidable("%s: read-loop condition not understood" % dec.nloc(cond))
-        fr = ref_of(b[1])
-
-        def val(e, f):
-            return f if ref_of(e) == fr else const_int(e)
-        for f in list(range(64)) + [ws, ex]:
-            x, y = val(b[1], f), val(b[2], f)
-            cont = {">=": x >= y, ">": x > y, "==": x == y, "!=": x != y, "<": x < y, "<=": x <= y}[b[0]]
-            want = f >= 64
-            if cont != want:
-                ck.violation("B64-SKIP", dec.qname, "loop%d" % i,
-                             "letter-reading loop %d %s for table value %d: %s" % (i + 1, "continues" if cont else "stops", f,
-                             "a valid letter is skipped" if cont else "whitespace / padding is taken as a data letter and shifts everything after it"), dec.nloc(cond))
-                oks = False
-                break
-    if oks:
-        ck.ok("B64-SKIP", dec.qname, "all four read loops skip exactly the special table values (whitespace, '=', invalid) and stop on every letter value 0..63")
-    # ---- bit provenance
-    loop_e = [x for x in enc.nodes() if x["k"] == "WhileStmt"][0]
+    enc = the_overload(tu, "tlx::base64_encode", ("ptr", "int", "int"))
+    dec = the_overload(tu, "tlx::base64_decode", ("ptr", "int", "int"))
+    # ---- bit provenance (symbolic): every output bit is traced to its input bit
     okb = True
+    e_tables = []
     for avail in (1, 2, 3):
-        it = B64Interp(enc, avail, 8, "byte")
-        it.run(kids(loop_e)[1])
-        sext = [o[1] for o in it.out if o[0] == "sextet"]
-        pads = [o for o in it.out if o[0] == "char" and o[1] == ord("=")]
+        cells = [BV([("u%d" % k, j) if j < 8 else 0 for j in range(W)]) for k in range(avail)]
+        st, r, _ = located(enc, lambda: attempt(tu, enc, [data_of(cells), avail, 0]))
+        tag = "encode:%dbytes" % avail
+        if st != "ok" or not isinstance(r, Str):
+            ck.violation("B64-BITS", enc.qname, tag, "encoding %d input byte(s) %s" % (avail, show((st, r))), enc.loc)
+            okb = False
+            continue
+        out = r.buf.cells
+        if any(not isinstance(c, (Enc, int)) for c in out):
+            raise dtable.Undecidable("%s: an output character of the encoder is neither a table entry nor a constant" % enc.loc)
+        sext = [c for c in out if isinstance(c, Enc)]
+        for c in sext:
+            if len(c.buf.cells) != 64:
+                raise dtable.Undecidable("%s: output characters are taken from a table with %d entries" % (enc.loc, len(c.buf.cells)))
+            if tuple(c.buf.cells) not in e_tables:
+                e_tables.append(tuple(c.buf.cells))
         bits = []
         for k in range(avail):
             bits += [("u%d" % k, j) for j in range(7, -1, -1)]          # msb first
         while len(bits) % 6:
             bits.append(0)
         want = [bits[i:i + 6] for i in range(0, len(bits), 6)]
-        got = [[s[j] for j in range(5, -1, -1)] if s else None for s in sext]
-        if got != want or len(pads) != (3 - avail) % 3 or any(s is None or any(s[j] != 0 for j in range(6, 16)) for s in sext):
-            ck.violation("B64-BITS", enc.qname, "encode:%dbytes" % avail,
-                         "encoding %d input byte(s) does not produce the RFC sextets (bit provenance differs) or the wrong number of '=' (%d)" % (avail, len(pads)), enc.loc)
+        got = [[c.idx.bits[j] for j in range(5, -1, -1)] for c in sext]
+        high = any(any(b != 0 for b in c.idx.bits[6:]) for c in sext)
+        npad = (3 - avail) % 3
+        shape_ok = len(out) == len(want) + npad and all(isinstance(c, Enc) for c in out[:len(want)]) and all(c == ord("=") for c in out[len(want):])
+        if got != want or high or not shape_ok:
+            pads = len([c for c in out if c == ord("=")])
+            ck.violation("B64-BITS", enc.qname, tag,
+                         "encoding %d input byte(s) does not produce the RFC sextets (bit provenance differs) or the wrong number of '=' (%d)" % (avail, pads), enc.loc)
             okb = False
-    loop_d = [x for x in dec.nodes() if x["k"] == "WhileStmt"][0]
+    d_tables = []
     for avail in (2, 3, 4):
-        it = B64Interp(dec, avail, 6, "table")
-        it.run(kids(loop_d)[1])
-        outb = [o[1] for o in it.out if o[0] == "byte"]
-        bits = []
-        for k in range(avail):
-            bits += [("u%d" % k, j) for j in range(5, -1, -1)]
-        nbytes = (avail * 6) // 8
-        want = [bits[i * 8:(i + 1) * 8] for i in range(nbytes)]
-        got = [[b_[j] for j in range(7, -1, -1)] if b_ else None for b_ in outb]
-        if got != want:
-            ck.violation("B64-BITS", dec.qname, "decode:%dletters" % avail, "decoding %d letters does not reassemble the RFC bytes (bit provenance differs)" % avail, dec.loc)
-            okb = False
+        for strict in (0, 1):
+            st, r, m = located(dec, lambda: attempt(tu, dec, [data_of([Letter(k) for k in range(avail)]), avail, strict]))
+            tag = "decode:%dletters" % avail
+            if st != "ok" or not isinstance(r, Str):
+                ck.violation("B64-BITS", dec.qname, tag, "decoding %d letters %s" % (avail, show((st, r))), dec.loc)
+                okb = False
+                break
+            for b in getattr(m, "letter_tables", []):
+                if tuple(b.cells) not in d_tables:
+                    d_tables.append(tuple(b.cells))
+            out = r.buf.cells
+            if any(not isinstance(c, (BV, int)) for c in out):
+                raise dtable.Undecidable("%s: an output byte of the decoder is not a bit combination of the letters' values" % dec.loc)
+            bits = []
+            for k in range(avail):
+                bits += [("u%d" % k, j) for j in range(5, -1, -1)]
+            nbytes = (avail * 6) // 8
+            want = [bits[i * 8:(i + 1) * 8] for i in range(nbytes)]
+            got = [[BV.of(c).bits[j] for j in range(7, -1, -1)] for c in out]
+            if got != want:
+                ck.violation("B64-BITS", dec.qname, tag, "decoding %d letters does not reassemble the RFC bytes (bit provenance differs)" % avail, dec.loc)
+                okb = False
+                break
     if okb:
         ck.ok("B64-BITS", "base64", "encoder: 1/2/3 bytes -> sextets + padding; decoder: 2/3/4 letters -> bytes; every bit traced to its source (decode o encode = identity)")
-    for fn in tu.find(qname="tlx::base64_encode") + tu.find(qname="tlx::base64_decode"):
-        if len(fn.params) == 2:
-            c = [x for x in fn.nodes() if "callee" in x and x["callee"]["qname"] == fn.qname]
-            okf = len(c) == 1 and match.call_named(kids(c[0])[0], ("data",)) and match.call_named(kids(c[0])[1], ("size",)) and ref_of(kids(c[0])[2]) == fn.params[1]["did"]
-            if okf:
-                ck.ok("FORWARD-ROLES", fn.qname + "(string_view)", "forwards (data, size, option)", nontrivial=False)
+    # ---- tables
+    if len(e_tables) != 1 or len(d_tables) != 1:
+        if not okb:
+            return
+        raise dtable.Undecidable("%s: encoder / decoder table not identified by the symbolic run (%d / %d candidates)" % (enc.loc, len(e_tables), len(d_tables)))
+    e64, d64 = e_tables[0], d_tables[0]
+    okt = True
+    if "".join(chr(c) for c in e64) != RFC_ALPHABET:
+        ck.violation("B64-TABLES", enc.qname, "alphabet", "the encoder alphabet is not the RFC 4648 alphabet", enc.loc)
+        okt = False
+    alpha = [ord(c) for c in RFC_ALPHABET]
+    for i, c in enumerate(alpha):
+        if d64[c] != i:
+            ck.violation("B64-TABLES", dec.qname, "inverse:%s" % chr(c), "decoding64[%r] = %s, must be %d (inverse of the encoder alphabet)" % (chr(c), d64[c], i), dec.loc)
+            okt = False
+            break
+    if not okb:
+        return          # the skip positions are decided by decoding whole groups, which needs a correct bit flow (already reported)
+    # every other byte: what the decoder does with it, decided by running the decoder with that byte put in front of
+    # letter p of the group "QUJD" (= "ABC"); a byte takes part only through its table value (the symbolic run above
+    # would have stopped at any other use), so one representative per table value is enough
+    group = [ord(c) for c in "QUJD"]
+    special = {}
+    for c in range(256):
+        if c not in alpha:
+            special.setdefault(d64[c], c)
+    behaviour = {}
+    for v, c in special.items():
+        for p in range(4):
+            res = []
+            for strict in (1, 0):
+                text = group[:p] + [c] + group[p:]
+                res.append(located(dec, lambda: outcome(tu, dec, [data_of(text), len(text), strict])))
+            cls = "skip" if res[0] == ("ok", b"ABC") and res[1] == ("ok", b"ABC") else \
+                "reject" if res[0] == ("throw",) and res[1] == ("ok", b"ABC") else "other"
+            behaviour[(v, p)] = (cls, res)
+    plain = located(dec, lambda: outcome(tu, dec, [data_of(group), 4, 1]))
+    if plain != ("ok", b"ABC"):
+        ck.violation("B64-BITS", dec.qname, "decode:QUJD", "decoding \"QUJD\" %s, expected b'ABC'" % show(plain), dec.loc)
+        return
+
+    def majority(v):
+        cl = [behaviour[(v, p)][0] for p in range(4)]
+        return max(("skip", "reject", "other"), key=lambda x: (cl.count(x), x != "other"))
+    for c in B64_SKIPPED:
+        v = d64[c]
+        if v < 64 or majority(v) != "skip":
+            ck.violation("B64-TABLES", dec.qname, "skip:%d" % c, "character %r must be skipped (padding / whitespace) but maps to %s, for which the decoder %s"
+                         % (chr(c), v, "takes it as a letter" if v < 64 else show(behaviour[(v, 0)][1][0]) + " in strict mode"), dec.loc)
+            okt = False
+    extra = [c for c in range(256) if c not in alpha and c not in B64_SKIPPED and (d64[c] < 64 or majority(d64[c]) != "reject")]
+    if extra:
+        ck.violation("B64-TABLES", dec.qname, "extra:%d" % extra[0], "character %r is accepted although it is not in the alphabet" % chr(extra[0]), dec.loc)
+        okt = False
+    if okt:
+        ck.ok("B64-TABLES", "base64", "alphabet = RFC 4648; decoder table inverts it on all 64 letters; '=' and whitespace skipped; %d other bytes rejected"
+              % (256 - 64 - len(B64_SKIPPED)))
+    # ---- the four letter-reading positions treat every special table value alike
+    oks = True
+    for v in sorted(special):
+        if v < 64:
+            continue
+        mj = majority(v)
+        for p in range(4):
+            cls, res = behaviour[(v, p)]
+            if cls != mj or cls == "other":
+                c = special[v]
+                text = "".join(chr(x) for x in group[:p]) + repr(chr(c))[1:-1] + "".join(chr(x) for x in group[p:])
+                what = res[0] if (res[0] not in (("ok", b"ABC"), ("throw",))) else res[1]
+                ck.violation("B64-SKIP", dec.qname, "loop%d" % p,
+                             "letter-reading loop %d does not skip table value %d: decoding \"%s\" %s (whitespace / padding is taken as a data letter and shifts "
+                             "everything after it, or a valid letter is skipped)" % (p + 1, v, text, show(what)), dec.loc)
+                oks = False
+                break
+        if not oks:
+            break
+    if oks:
+        ck.ok("B64-SKIP", dec.qname, "all four read positions skip exactly the special table values (whitespace, '=', invalid) and stop on every letter value 0..63")
+    # ---- string_view front ends: same result as the (data, size, option) overload on the view's bytes
+    for q, base, samples in (("tlx::base64_encode", enc, [(b"", 0), (b"f", 0), (b"fo", 0), (b"foobar", 0), (b"foobar", 4), (b"\x00\xff\x10", 0)]),
+                             ("tlx::base64_decode", dec, [(b"Zm9vYmFy", 1), (b"Zm9v\nYmE=", 1), (b"Zm9v*YmFy", 0), (b"Zm9v*YmFy", 1), (b"", 0)])):
+        for fn in [the_overload(tu, q, ("view", "int"))]:
+            bad = None
+            for bs, opt in samples:
+                a = located(fn, lambda: outcome(tu, fn, [view_of(bs), opt]))
+                b = located(base, lambda: outcome(tu, base, [data_of(bs), len(bs), opt]))
+                if a != b:
+                    bad = (bs, opt, a, b)
+                    break
+            if bad:
+                ck.violation("FORWARD-ROLES", fn.qname, "string_view-overload", "does not forward (str.data(), str.size(), option): for %r with option %d it %s, the "
+                             "pointer overload %s" % (bad[0], bad[1], show(bad[2]), show(bad[3])), fn.loc)
             else:
-                ck.violation("FORWARD-ROLES", fn.qname, "string_view-overload", "does not forward (str.data(), str.size(), option)", fn.loc)
+                ck.ok("FORWARD-ROLES", fn.qname + "(string_view)", "forwards (data, size, option)", nontrivial=False)
 
 
 # ------------------------------------------------------------------ hexdump
+HEX_UC, HEX_LC = "0123456789ABCDEF", "0123456789abcdef"
+
+
 def check_hex(ck, tu):
-    uc, lc = "0123456789ABCDEF", "0123456789abcdef"
     okall = True
-    for q, want in (("tlx::hexdump", uc), ("tlx::hexdump_lc", lc), ("tlx::hexdump_sourcecode", uc)):
-        for fn in tu.find(qname=q):
-            if not any(x["k"] == "VarDecl" and x["name"] == "xdigits" for x in fn.nodes()):
+    n = 0
+    allbytes = list(range(256))
+    for q, digits in (("tlx::hexdump", HEX_UC), ("tlx::hexdump_lc", HEX_LC)):
+        fn = the_overload(tu, q, ("ptr", "int"))
+        n += 1
+        o = located(fn, lambda: outcome(tu, fn, [data_of(allbytes), 256]))
+        want = "".join(digits[b >> 4] + digits[b & 15] for b in allbytes).encode()
+        if o != ("ok", want):
+            okall = False
+            if o[0] == "ok" and len(o[1]) == len(want):
+                i = [j for j in range(256) if o[1][2 * j:2 * j + 2] != want[2 * j:2 * j + 2]][0]
+                ck.violation("HEX-TABLES", fn.qname, "digits", "byte %#04x is written as %r, expected %r (digit table / high nibble first)"
+                             % (i, o[1][2 * i:2 * i + 2].decode("latin1"), want[2 * i:2 * i + 2].decode()), fn.loc)
+            else:
+                ck.violation("HEX-TABLES", fn.qname, "digits", "dumping the 256 byte values %s" % show(o)[:120], fn.loc)
+    for fn in [the_overload(tu, "tlx::hexdump_sourcecode", ("view", "view"))]:
+        n += 1
+        o = located(fn, lambda: outcome(tu, fn, [view_of(allbytes), view_of(b"v")]))
+        toks = []
+        if o[0] == "ok":
+            t = o[1]
+            i = t.find(b"0x")
+            while i >= 0:
+                toks.append(t[i + 2:i + 4].decode("latin1"))
+                i = t.find(b"0x", i + 2)
+        want = [HEX_UC[b >> 4] + HEX_UC[b & 15] for b in allbytes]
+        if o[0] != "ok" or toks != want:
+            okall = False
+            bad = [j for j in range(min(len(toks), 256)) if toks[j] != want[j]]
+            ck.violation("HEX-TABLES", fn.qname, "digits", ("byte %#04x is written as 0x%s, expected 0x%s" % (bad[0], toks[bad[0]], want[bad[0]])) if bad else
+                         "dumping the 256 byte values %s" % show(o)[:120], fn.loc)
+    fn = the_overload(tu, "tlx::parse_hexdump", ("view",))
+    n += 1
+    digs = [(ord(ch), v) for v, ch in enumerate(HEX_UC)] + [(ord(ch), v) for v, ch in enumerate(HEX_LC) if ch not in HEX_UC]
+    text, want = [], []
+    for h, hv in digs:
+        for l, lv in digs:
+            text += [h, l]
+            want.append(hv << 4 | lv)
+    o = located(fn, lambda: outcome(tu, fn, [view_of(text)], budget=2000000))
+    if o != ("ok", bytes(want)):
+        okall = False
+        if o[0] == "ok" and len(o[1]) == len(want):
+            i = [j for j in range(len(want)) if o[1][j] != want[j]][0]
+            ck.violation("HEX-TABLES", fn.qname, "switch:%s" % chr(text[2 * i]) + chr(text[2 * i + 1]), "the digit pair %r parses to %#04x, must be %#04x"
+                         % (chr(text[2 * i]) + chr(text[2 * i + 1]), o[1][i], want[i]), fn.loc)
+        else:
+            # find the first pair that goes wrong on its own
+            bad = None
+            for i in range(len(want)):
+                oi = located(fn, lambda: outcome(tu, fn, [view_of(text[2 * i:2 * i + 2])]))
+                if oi != ("ok", bytes(want[i:i + 1])):
+                    bad = (i, oi)
+                    break
+            ck.violation("HEX-TABLES", fn.qname, "switch", ("the digit pair %r %s, must give %#04x" % (chr(text[2 * bad[0]]) + chr(text[2 * bad[0] + 1]), show(bad[1]), want[bad[0]]))
+                         if bad else "parsing all digit pairs %s" % show(o)[:120], fn.loc)
+    else:
+        hexset = {d for d, _ in digs}
+        for c in range(256):
+            if c in hexset:
                 continue
-            t = "".join(chr(c) for c in local_table(fn, "xdigits"))
-            if t != want:
-                ck.violation("HEX-TABLES", fn.qname, "digits", "digit table is %r, expected %r" % (t, want), fn.loc)
-                okall = False
-            # emission order: high nibble then low nibble of the same byte
-            em = []
-            for x in fn.nodes():
-                p = match.index_parts(x) if x["k"] in ("ArraySubscriptExpr",) else None
-                if p and ir.ref_name(p[0]) == "xdigits":
-                    idx = strip_casts(p[1])
-                    sh = match.binop(idx, (">>",))
-                    m = match.binop(sh[1] if sh else idx, ("&",))
-                    mask = const_int(m[2]) if m else None
-                    em.append((mask, const_int(sh[2]) if sh else 0))
-            if em != [(0xF0, 4), (0x0F, 0)]:
-                ck.violation("HEX-TABLES", fn.qname, "nibbles", "bytes are not written as high nibble then low nibble (%s)" % em, fn.loc)
-                okall = False
-    fn = tu.one(qname="tlx::parse_hexdump")
-    sws = [x for x in fn.nodes() if x["k"] == "SwitchStmt"]
-    ck.require(len(sws) == 2, "%s: two nibble switches expected" % fn.loc)
-    for si, (sw, shift) in enumerate(zip(sws, (4, 0))):
-        flat = flatten_switch(kids(sw)[1])
-        table = {}
-        labels = []
-        has_default_throw = False
-        for e in flat:
-            if e[0] == "case":
-                labels.append(e[1])
-            elif e[0] == "default":
-                labels.append("default")
-            elif e[0] == "stmt":
-                s = e[1]
-                if s["k"] == "BreakStmt":
-                    labels = []
-                    continue
-                b = match.binop(s, ("|=", "="))
-                if b and labels:
-                    for l in labels:
-                        table[l] = const_int(b[2])
-                if s["k"] == "CXXThrowExpr" or any(y["k"] == "CXXThrowExpr" for y in ir.walk(s)):
-                    if "default" in labels:
-                        has_default_throw = True
-        for digits in (uc, lc):
-            for v, ch in enumerate(digits):
-                if table.get(ord(ch)) != (v << shift):
-                    ck.violation("HEX-TABLES", fn.qname, "switch%d:%s" % (si, ch), "digit %r parses to %s in the %s nibble, must be %#x"
-                                 % (ch, table.get(ord(ch)), "high" if shift else "low", v << shift), fn.nloc(sw))
+            for pos, pair in ((0, [c, ord("0")]), (1, [ord("0"), c])):
+                oi = located(fn, lambda: outcome(tu, fn, [view_of(pair)]))
+                if oi != ("throw",):
+                    ck.violation("HEX-TABLES", fn.qname, "switch%d:reject" % pos, "non-hex characters are not rejected: %r as the %s digit %s"
+                                 % (chr(c), "high" if pos == 0 else "low", show(oi)), fn.loc)
                     okall = False
                     break
-        extra = [c for c in table if c != "default" and chr(c) not in uc + lc]
-        if extra or not has_default_throw:
-            ck.violation("HEX-TABLES", fn.qname, "switch%d:reject" % si, "non-hex characters are not rejected", fn.nloc(sw))
-            okall = False
+            if not okall:
+                break
     if okall:
-        ck.ok("HEX-TABLES", "hexdump / hexdump_lc / parse_hexdump", "digit tables = 0-9A-F / 0-9a-f, high nibble first; both parser switches invert both tables on all 22 digits and reject the rest")
+        ck.ok("HEX-TABLES", "hexdump / hexdump_lc / parse_hexdump", "all 256 byte values dump to 0-9A-F / 0-9a-f, high nibble first; the parser inverts all 22x22 digit "
+              "pairs and rejects each of the 234 other bytes in both positions (%d functions evaluated)" % n)
 
 
-# ------------------------------------------------------------------ scan windows
-def check_scan_window(ck, tu, fnq):
-    for fn in tu.find(qname=fnq):
-        if not (fn.params and any("StringView" in p["ty"] and p["name"] == "sep" for p in fn.params)):
-            continue
-        eq = [x for x in fn.nodes() if "callee" in x and x["callee"]["name"] == "equal" and "std" in x["callee"]["qname"]]
-        if not eq:
-            continue
-        g = cfgm.CFG(fn)
-        sep = [p["did"] for p in fn.params if p["name"] == "sep"][0]
-        strp = [p["did"] for p in fn.params if p["name"] == "str"][0]
-        for c in eq:
-            cur = ref_of(kids(c)[2])
-            loop = fn.parent(c)
-            while loop is not None and loop["k"] not in ("ForStmt", "WhileStmt"):
-                loop = fn.parent(loop)
-            ck.require(loop is not None and cur is not None, "%s: window loop not found" % fn.loc)
-            init, cond, inc, body = match.loop_parts(loop)
-            tag = "%s(%s)" % (fn.qname, ",".join(p["name"] for p in fn.params))
-            # guard: the loop condition, as a canonical linear inequality, is exactly  end - it - sep.size() >= 0
-            L = linear.Lin(fn, g)
-            size_calls = [y for y in fn.nodes() if "callee" in y and y.get("member_call") and y["callee"]["name"] in ("size", "length") and ref_of(kids(y)[0]) == sep]
-            end_calls = [y for y in fn.nodes() if "callee" in y and y.get("member_call") and y["callee"]["name"] in ("end", "cend") and ref_of(kids(y)[0]) == strp]
-            ck.require(size_calls and end_calls and cond is not None, "%s: sep.size() / str.end() not found" % fn.loc)
-            fe, fs, fc = L.form(end_calls[0], cond), L.form(size_calls[0], cond), L.form(kids(c)[2], cond)
-            terms = dict(fe[0])
-            for f_, sg in ((fs, -1), (fc, -1)):
-                for t, k_ in f_[0].items():
-                    terms[t] = terms.get(t, 0) + sg * k_
-            need = linear.canon({t: k_ for t, k_ in terms.items() if k_}, fe[1] - fs[1] - fc[1])
-            atom = L.atom(cond, True, use=cond)
-            if atom is None:
-                raise dtable.Undecidable("%s: loop guard is not an inequality: %s" % (fn.loc, dtable.describe(cond)))
-            if not linear.implies(atom, need):
-                ck.violation("SCAN-WINDOW", fn.qname, tag + ":guard", "the loop guard %s (%s >= 0) does not ensure that a whole separator fits at the cursor "
-                             "(needs %s >= 0): the comparison window can run past the end" % (dtable.describe(cond), linear.show(atom), linear.show(need)), fn.nloc(cond))
-                continue
-            if not linear.same(atom, need):
-                ck.violation("SCAN-WINDOW", fn.qname, tag + ":guard", "the loop guard %s stops early (%s >= 0 instead of %s >= 0): a separator at the very end of "
-                             "the string is never found" % (dtable.describe(cond), linear.show(atom), linear.show(need)), fn.nloc(cond))
-                continue
-            # after a match the scan resumes past the matched window: every path from the match edge back to the loop head
-            # assigns the cursor (not merely ++)
-            head = g.pos_deep(cond)[0]
-            br = None
-            for bid, blk in g.blocks.items():
-                els = g.elements(bid)
-                if len(blk.get("succ", [])) == 2 and els and isinstance(els[-1], int):
-                    cn = fn.byid(els[-1])
-                    if cn is not None and any(y is c for y in ir.walk(cn)):
-                        br = (bid, cn)
-            ck.require(br is not None, "%s: branch on the separator comparison not found" % fn.loc)
-            neg = False
-            cn = strip_casts(br[1])
-            while cn is not None and cn is not c and (cn["k"] == "ParenExpr" or (cn["k"] == "UnaryOperator" and cn.get("op") == "!")):
-                if cn["k"] == "UnaryOperator":
-                    neg = not neg
-                cn = strip_casts(kids(cn)[0])
-            if cn is not c and strip_casts(cn) is not c:
-                raise dtable.Undecidable("%s: the separator comparison is part of a larger condition" % fn.loc)
-            raw = g.blocks[br[0]]["succ"]
-            start = raw[1] if neg else raw[0]
-            assigns = set()
-            for y in fn.nodes():
-                bb = match.binop(y, ("=", "+=")) if y["k"] in ("BinaryOperator", "CompoundAssignOperator", "CXXOperatorCallExpr") else None
-                if bb and ref_of(bb[1]) == cur and strip_casts(bb[1])["k"] == "DeclRefExpr" and g.pos_deep(y) is not None:
-                    assigns.add(g.pos_deep(y)[0])
-            seen, work, leak = set(), [start], False
-            while work:
-                b_ = work.pop()
-                if b_ in seen or b_ is None:
-                    continue
-                seen.add(b_)
-                if b_ in assigns:
-                    continue
-                if b_ == head:
-                    leak = True
+# ------------------------------------------------------------------ split / split_view: scan windows and forwarding roles
+def ref_split(sep, s, limit):
+    """fields of s cut at non-overlapping occurrences of sep found left to right; at most `limit` fields, the last takes the rest"""
+    out = []
+    pos = 0
+    if limit == 0:
+        return out
+    while True:
+        j = s.find(sep, pos) if len(out) + 1 < limit else -1
+        if j < 0:
+            out.append(s[pos:])
+            return out
+        out.append(s[pos:j])
+        pos = j + len(sep)
+
+
+def words(alphabet, maxlen):
+    out = [b""]
+    for n in range(1, maxlen + 1):
+        out += [bytes(t) for t in itertools.product(alphabet, repeat=n)]
+    return out
+
+
+def check_split_family(ck, tu, family):
+    shapes = (("char", "view", "int"), ("view", "view", "int"), ("char", "view", "int", "int"), ("view", "view", "int", "int"))
+    fns = [the_overload(tu, "tlx::" + family, pre + sh) for pre in ((), ("ref:vec",)) for sh in shapes]
+    elem = None
+    verdict = {}          # fn.did -> None (agrees with the reference) | (args text, outcome, expected)
+    calls = {}
+    strs = words(b"ab", 4)
+    for fn in fns:
+        sg = sig_of(fn)
+        into = sg[0] == "ref:vec"
+        rest = sg[1:] if into else sg
+        calls[fn.did] = {y["callee"].get("did") for y in fn.nodes() if "callee" in y and y["callee"].get("qname") == fn.qname}
+        seps = [b"a"] if rest[0] == "char" else [b"a", b"b", b"aa", b"ab", b"ba"]
+        with_min = len(rest) == 4
+        limits = [(0, NPOS), (0, 1), (0, 2), (0, 3)] if not with_min else [(0, NPOS), (3, 2), (1, 3), (2, 1), (4, NPOS)]
+        elem = vec_elem(fn.params[0].get("ty").rstrip(" *")) if into else vec_elem(fn.d.get("ret"))
+        bad = None
+        for sep in seps:
+            for s in strs:
+                for mf, lim in limits:
+                    args = []
+                    vec = None
+                    if into:
+                        vec = Vec([Str(b"junk")] if elem == "str" else [view_of(b"junk")], elem)
+                        args.append(Ref(vec))
+                    args.append(sep[0] if rest[0] == "char" else view_of(sep))
+                    args.append(view_of(s))
+                    if with_min:
+                        args.append(mf)
+                    args.append(lim)
+                    o = located(fn, lambda: outcome(tu, fn, args))
+                    want = ref_split(sep, s, lim)
+                    want += [b""] * max(0, mf - len(want))
+                    if o != ("ok", want) or (into and concrete(vec) != want):
+                        bad = ("sep=%r str=%r%s limit=%s" % (sep.decode(), s.decode(), " min_fields=%d" % mf if with_min else "", "npos" if lim == NPOS else lim),
+                               o if o != ("ok", want) else ("ok", concrete(vec)), want)
+                        break
+                if bad:
                     break
-                work.extend(g.succ[b_])
-            if leak:
-                ck.violation("SCAN-WINDOW", fn.qname, tag + ":resume",
-                             "after a match the cursor is only advanced by one: an overlapping second match (separator 'aa' in 'aaaa') yields a part that ends before it begins", fn.nloc(c))
-                continue
-            ck.ok("SCAN-WINDOW", tag, "window guarded by it + sep.size() <= end; scan resumes behind the match")
+            if bad:
+                break
+        verdict[fn.did] = bad
+    for fn in fns:
+        sg = sig_of(fn)
+        tag = "%s(%s)" % (family, ",".join(p["name"] for p in fn.params))
+        forwards = bool(calls[fn.did] - {fn.did})
+        rule = "FORWARD-ROLES" if forwards else "SCAN-WINDOW"
+        bad = verdict[fn.did]
+        if bad is None:
+            if forwards:
+                ck.ok("FORWARD-ROLES", tag + " @" + fn.loc, "agrees with the reference split for every separator / string / min_fields / limit tried: parameters reach the roles of the same name", nontrivial=False)
+            else:
+                ck.ok("SCAN-WINDOW", tag, "all strings over {a,b} up to length 4 x separators up to length 2 x limits: fields equal the left-to-right non-overlapping "
+                      "cut; no read outside the string")
+            continue
+        if forwards and any(verdict.get(d) is not None for d in calls[fn.did] if d != fn.did):
+            continue               # the overload it forwards to is itself reported
+        args_text, o, want = bad
+        if o[0] == "fault":
+            msg = "%s: %s - the comparison window / field range leaves the string" % (args_text, o[1])
+        elif o[0] == "hang":
+            msg = "%s: the scan does not end (%s)" % (args_text, o[1])
+        else:
+            msg = "%s: %s, expected %r" % (args_text, show(o), want)
+        if forwards:
+            msg = "%s does not hand its parameters to the overload it forwards to in their roles (separator, string, min_fields, limit): %s" % (tag, msg)
+        ck.violation(rule, fn.qname, tag + (":roles" if forwards else ":scan"), msg, fn.loc)
 
 
 # ------------------------------------------------------------------ quoting agreement
 def check_quote(ck, tu_j, tu_s):
-    wr = [f for f in tu_j.find(qname="tlx::join_quoted") if len(f.params) == 4][0]
-    rd = [f for f in tu_s.find(qname="tlx::split_quoted") if len(f.params) == 4][0]
-    rsep, rquote = rd.params[1]["did"], rd.params[2]["did"]
-    # reader: top-level dispatch of the outer loop
-    outer = [x for x in kids(rd.body) if x["k"] == "ForStmt"]
-    ck.require(len(outer) == 1, "%s: reader loop not found" % rd.loc)
-    node = [s for s in kids(match.loop_parts(outer[0])[3]) if s["k"] == "IfStmt"][0]
-    classes = {}
-    while node is not None and node["k"] == "IfStmt":
-        b = match.binop(kids(node)[0], ("==",))
-        which = None
-        if b:
-            which = "sep" if ref_of(b[2]) == rsep or ref_of(b[1]) == rsep else "quote" if ref_of(b[2]) == rquote or ref_of(b[1]) == rquote else None
-        then = kids(node)[1]
-        if which:
-            classes[which] = any("callee" in y and y["callee"]["name"] in ("emplace_back", "push_back") for y in ir.walk(then))
-        node = kids(node)[2]
-    ck.require("sep" in classes and "quote" in classes, "%s: reader dispatch classes not recognised (%s)" % (rd.loc, classes))
-    need = ["contains-sep"]
-    if not classes["sep"]:
-        need.append("empty")          # a separator at field start is skipped: an empty unquoted field vanishes
-    need.append("starts-with-quote")  # a quote at field start switches to quoted mode
-    # writer: condition under which the quoted form is chosen
-    wsep, wquote = wr.params[1]["did"], wr.params[2]["did"]
-    cond = None
-    for x in wr.nodes():
-        if x["k"] == "IfStmt" and any(const_int(y) is None and match.binop(y, ("+=",)) and ref_of(match.binop(y, ("+=",))[2]) == wquote for y in ir.walk(kids(x)[1])):
-            if cond is None:
-                cond = x
-    ck.require(cond is not None, "%s: writer's quoting decision not found" % wr.loc)
+    wr = the_overload(tu_j, "tlx::join_quoted", ("vec", "char", "char", "char"))
+    rd = the_overload(tu_s, "tlx::split_quoted", ("view", "char", "char", "char"))
 
-    def atomize(n, run):
-        b = match.binop(n, ("!=", "=="))
-        if b:
-            f = match.call_named(b[1], ("find", "find_first_of"))
-            if f is not None and "callee" in strip_casts(b[1]) and ref_of(kids(strip_casts(b[1]))[1]) == wsep:
-                return ("contains-sep", b[0] == "==")
-            idx = match.index_parts(b[1])
-            fr = match.call_named(b[1], ("front",))
-            if ((idx and const_int(idx[1]) == 0) or (fr is not None and "callee" in strip_casts(b[1]))) and ref_of(b[2]) == wquote:
-                return ("starts-with-quote", b[0] == "!=")
-            sz = match.call_named(b[1], ("size", "length"))
-            if sz is not None and "callee" in strip_casts(b[1]) and const_int(b[2]) == 0:
-                return ("empty", b[0] == "!=")
-        e = match.call_named(n, ("empty",))
-        if e is not None and "callee" in strip_casts(n):
-            return ("empty", False)
+    def roundtrip(fields, sep, quote, esc):
+        vec = Vec([Str(f) for f in fields], "str")
+        o = located(wr, lambda: outcome(tu_j, wr, [vec, sep, quote, esc]))
+        if o[0] != "ok":
+            return o, None
+        back = located(rd, lambda: outcome(tu_s, rd, [view_of(o[1]), sep, quote, esc]))
+        return o, back
+
+    def sweep(alphabet, sep, quote, esc):
+        singles = words(alphabet, 2)
+        lists = [[f] for f in singles] + [[f, b"a"] for f in singles] + [[b"a", f] for f in singles] + [[f, b""] for f in singles] + [[f, f] for f in singles[:12]]
+        for fields in lists:
+            if not fields:
+                continue
+            w, back = roundtrip(fields, sep, quote, esc)
+            if w[0] != "ok" or back != ("ok", fields):
+                return fields, w, back
         return None
-    leaves = dtable.explore(kids(cond)[0], atomize, wr, as_expr=True)
-    atoms = list(dict.fromkeys(need + dtable.atoms_of(leaves)))
-    bad = None
-    for v, lf in dtable.table(leaves, lambda v: not (v.get("empty") and (v.get("contains-sep") or v.get("starts-with-quote"))), atoms):
-        must = any(v.get(a) for a in need)
-        if must and not lf["result"] and bad is None:
-            bad = v
-    if bad:
-        which = [a for a in need if bad.get(a)]
-        ck.violation("QUOTE-AGREE", wr.qname, "unquoted:" + "+".join(which),
-                     "join_quoted writes a field that is %s without quotes, but split_quoted %s: the field does not survive the round trip"
-                     % (" and ".join(which), "skips a separator at the start of a field (an empty field vanishes)" if "empty" in which else
-                        "switches to quoted mode on a leading quote" if "starts-with-quote" in which else "ends an unquoted field at the separator"), wr.nloc(cond))
-    else:
-        ck.ok("QUOTE-AGREE", "join_quoted vs split_quoted", "reader classes %s => fields that are %s are always quoted" % (classes, ", ".join(need)))
-    # escapes: every character the writer escapes is un-escaped by the reader to the same character
-    wesc = {}
-    for x in wr.nodes():
-        if x["k"] == "IfStmt":
-            b = match.binop(kids(x)[0], ("==",))
-            if b and const_int(b[2]) is not None and strip_casts(b[2])["k"] == "CharacterLiteral":
-                outs = [const_int(match.binop(y, ("+=",))[2]) for y in ir.walk(kids(x)[1]) if match.binop(y, ("+=",)) and strip_casts(match.binop(y, ("+=",))[2])["k"] == "CharacterLiteral"]
-                if outs:
-                    wesc[const_int(b[2])] = outs[-1]
-    resc = {}
-    for x in rd.nodes():
-        if x["k"] == "IfStmt":
-            b = match.binop(kids(x)[0], ("==",))
-            if b and const_int(b[2]) is not None and strip_casts(b[2])["k"] == "CharacterLiteral":
-                outs = [const_int(match.binop(y, ("+=",))[2]) for y in ir.walk(kids(x)[1]) if match.binop(y, ("+=",)) and strip_casts(match.binop(y, ("+=",))[2])["k"] == "CharacterLiteral"]
-                if outs:
-                    resc[const_int(b[2])] = outs[-1]
-    badesc = [(c, l) for c, l in wesc.items() if resc.get(l) != c]
-    if badesc:
-        c, l = badesc[0]
-        ck.violation("QUOTE-AGREE", rd.qname, "escape:%d" % c, "the writer escapes %r as \\%s but the reader maps \\%s to %r" % (chr(c), chr(l), chr(l), chr(resc.get(l, 63))), rd.loc)
-    else:
-        ck.ok("QUOTE-AGREE", "escape letters", "writer %s <-> reader inverse" % {chr(k): chr(v) for k, v in wesc.items()})
+    for name, alphabet, detail in (
+            ("quoting", bytes([32, 34, 97]), "fields over {separator, quote, 'a'} incl. empty ones"),
+            ("escapes", bytes([92, 34, 10, 13, 9, 110, 32]), "fields over {escape, quote, \\n, \\r, \\t, 'n', separator}")):
+        bad = None
+        for sep, quote, esc in ((32, 34, 92),):
+            bad = sweep(alphabet, sep, quote, esc)
+            if bad:
+                break
+        if bad:
+            fields, w, back = bad
+            if w[0] != "ok":
+                ck.violation("QUOTE-AGREE", wr.qname, name + ":write", "join_quoted(%r) %s" % (fields, show(w)), wr.loc)
+            else:
+                ck.violation("QUOTE-AGREE", wr.qname if name == "quoting" else rd.qname, name + ":" + "+".join(repr(f.decode("latin1")) for f in fields),
+                             "join_quoted writes the fields %r as %r, but split_quoted %s: the fields do not survive the round trip" % (fields, w[1], show(back)),
+                             wr.loc if name == "quoting" else rd.loc)
+        else:
+            ck.ok("QUOTE-AGREE", "join_quoted vs split_quoted: " + name, "split_quoted(join_quoted(v)) == v for all lists of one or two " + detail)
 
 
 # ------------------------------------------------------------------ icase family
-def end_atomizer(fn):
-    """atoms Ea / Eb: operand a / b exhausted"""
-    pa, pb = fn.params[0]["did"], fn.params[1]["did"]
-    owner = {}
-    for x in fn.nodes():
-        if x["k"] == "VarDecl" and kids(x):
-            c = match.call_named(kids(x)[0], ("begin", "cbegin"))
-            if c is not None:
-                owner[x["did"]] = ref_of(kids(strip_casts(kids(x)[0]))[0]) if "callee" in strip_casts(kids(x)[0]) else None
-
-    def side(did):
-        if did in (pa, owner_key(pa)):
-            return "a"
-        return None
-
-    def owner_key(p):
-        return [k for k, v in owner.items() if v == p][0] if [k for k, v in owner.items() if v == p] else None
-
-    def who(e):
-        r = ref_of(e)
-        if r == pa or owner.get(r) == pa:
-            return "a"
-        if r == pb or owner.get(r) == pb:
-            return "b"
-        return None
-
-    def atomize(n, run):
-        b = match.binop(n, ("==", "!="))
-        if not b:
-            return None
-        # *p == 0   /  it == x.end()
-        for l, r in ((b[1], b[2]), (b[2], b[1])):
-            d = match.deref_of(l)
-            if d is not None and const_int(r) == 0 and who(d):
-                return ("E" + who(d), b[0] == "!=")
-            e = match.call_named(r, ("end", "cend"))
-            if e is not None and "callee" in strip_casts(r) and who(l) and who(l) == who(kids(strip_casts(r))[0]):
-                return ("E" + who(l), b[0] == "!=")
-        return None
-    return atomize, who
-
-
-def tail_table(fn):
-    """outcomes of the code after the main comparison loop for each (Ea, Eb)"""
-    loops = [s for s in kids(fn.body) if s["k"] == "WhileStmt"]
-    if len(loops) != 1:
-        return None
-    tail = kids(fn.body)[kids(fn.body).index(loops[0]) + 1:]
-    atomize, who = end_atomizer(fn)
-    frag = dict(k="CompoundStmt", id=-1, ch=tail)
-    out = {}
-    for Ea in (True, False):
-        for Eb in (True, False):
-            r = dtable.Run(atomize, {"Ea": Ea, "Eb": Eb}, fn)
-            try:
-                r.stmt(frag)
-                out[(Ea, Eb)] = ("fallthrough",)
-            except dtable._Stop as st:
-                e = st.payload[0]
-
-                def val(x, depth=0):
-                    x0 = strip_casts(x)
-                    while x0 is not None and x0["k"] == "ParenExpr":
-                        x0 = strip_casts(kids(x0)[0])
-                    if x0 is not None and x0["k"] == "ConditionalOperator" and depth < 4:
-                        return val(kids(x0)[1] if r.truth(kids(x0)[0]) else kids(x0)[2], depth + 1)
-                    v_ = int_of(x0)
-                    if v_ is not None:
-                        return ("const", v_)
-                    if (x0.get("ty") or "") == "bool":
-                        return ("const", int(r.truth(x0)))
-                    raise dtable.Undecidable("value")
-                try:
-                    out[(Ea, Eb)] = val(e)
-                except (dtable.Undecidable, dtable._Need):
-                    out[(Ea, Eb)] = ("expr", e)
-            except dtable._Need as nd:
-                raise dtable.Undecidable("%s: unknown atom %s" % (fn.loc, nd.key))
-    return out, loops[0], who
-
-
-def int_of(e):
-    e = strip_casts(e)
-    c = const_int(e)
-    if c is not None and e["k"] in ("IntegerLiteral", "CXXBoolLiteralExpr"):
-        return int(c)
-    u = match.unop(e, ("-", "+"))
-    if u:
-        v = int_of(u[1])
-        return None if v is None else (-v if u[0] == "-" else v)
-    return None
+def lower(bs):
+    return bytes(c + 32 if 65 <= c <= 90 else c for c in bs)
 
 
 def check_icase(ck, tus):
+    strs = words(b"aAbB", 2)
     for fam in ("compare_icase", "equal_icase", "less_icase"):
         tu = tus[fam]
-        for fn in tu.find(qname="tlx::" + fam):
-            tag = "%s(%s)" % (fam, ",".join("view" if "StringView" in p["ty"] else "cstr" for p in fn.params))
-            tt = tail_table(fn)
-            if tt is None:
-                # algorithm-based overload: orientation of the element comparison
-                lams = [tu.by_did.get(x.get("fn")) for x in fn.nodes() if x["k"] == "LambdaExpr"]
-                okl = True
-                for lf in lams:
-                    if lf is None:
-                        continue
-                    e = kids([y for y in lf.nodes() if y["k"] == "ReturnStmt"][0])[0]
-                    b = match.binop(e, ("<", "==", ">"))
-                    if b:
-                        a0 = [y["ref"]["id"] for y in ir.walk(b[1]) if y["k"] == "DeclRefExpr" and y["ref"]["kind"] == "param"]
-                        a1 = [y["ref"]["id"] for y in ir.walk(b[2]) if y["k"] == "DeclRefExpr" and y["ref"]["kind"] == "param"]
-                        ps = [p["did"] for p in lf.params]
-                        want = {"compare_icase": None, "equal_icase": "==", "less_icase": "<"}[fam]
-                        if not (a0 == ps[:1] and a1 == ps[1:2] and b[0] == want):
-                            okl = False
-                if fam == "equal_icase":
-                    sz = any(match.binop(y, ("!=",)) and match.call_named(match.binop(y, ("!=",))[1], ("size",)) for y in fn.nodes())
-                    okl = okl and sz
-                if okl:
-                    ck.ok("ICASE-OVERLOADS", tag, "delegates to a std algorithm with the element comparison in operand order", nontrivial=False)
-                else:
-                    ck.violation("ICASE-OVERLOADS", fn.qname, tag, "algorithm-based overload compares elements in the wrong orientation / lacks the length test", fn.loc)
-                continue
-            out, loop, who = tt
+        for sg in (("ptr", "ptr"), ("ptr", "view"), ("view", "ptr"), ("view", "view")):
+            fn = the_overload(tu, "tlx::" + fam, sg)
+            tag = "%s(%s)" % (fam, ",".join("view" if s == "view" else "cstr" for s in sg))
+            rule = "CMP3-ORIENT" if fam == "compare_icase" else "ICASE-OVERLOADS"
             bad = None
-            if fam == "compare_icase":
-                want = {(True, True): 0, (True, False): -1, (False, True): 1}
-                for k, w in want.items():
-                    o = out[k]
-                    sgn = (o[1] > 0) - (o[1] < 0) if o[0] == "const" else None
-                    if sgn != w:
-                        bad = (k, o, w)
+            for a in strs:
+                for b in strs:
+                    la, lb = lower(a), lower(b)
+                    o = located(fn, lambda: outcome(tu, fn, [view_of(x) if s == "view" else cstr_of(x) for x, s in ((a, sg[0]), (b, sg[1]))]))
+                    if fam == "compare_icase":
+                        want = (la > lb) - (la < lb)
+                        good = o[0] == "ok" and isinstance(o[1], int) and ((o[1] > 0) - (o[1] < 0)) == want
+                    else:
+                        want = int(la == lb) if fam == "equal_icase" else int(la < lb)
+                        good = o == ("ok", want)
+                    if not good:
+                        bad = (a, b, o, want)
                         break
-                # in-loop orientation: ca < cb -> negative
-                for x in ir.walk(loop):
-                    if x["k"] == "IfStmt":
-                        b = match.binop(kids(x)[0], ("<", ">"))
-                        if b and ref_of(b[1]) is not None and ref_of(b[2]) is not None:
-                            rets = [int_of(kids(y)[0]) for y in ir.walk(kids(x)[1]) if y["k"] == "ReturnStmt"]
-                            names = (ir.ref_name(b[1]), ir.ref_name(b[2]))
-                            first_is_a = names[0].endswith("a")
-                            a_less = (b[0] == "<") == first_is_a
-                            if rets and ((rets[0] < 0) != a_less):
-                                bad = (("loop",), ("const", rets[0]), -1 if a_less else 1)
-            elif fam == "equal_icase":
-                want = {(True, True): 1, (True, False): 0, (False, True): 0, (False, False): 0}
-                for k, w in want.items():
-                    if out[k] != ("const", w):
-                        bad = (k, out[k], w)
-                        break
-            else:
-                want = {(True, True): 0, (True, False): 1, (False, True): 0}
-                for k, w in want.items():
-                    if out[k] != ("const", w):
-                        bad = (k, out[k], w)
-                        break
-                o = out[(False, False)]
-                if bad is None and o[0] == "expr":
-                    b = match.binop(o[1], ("<",))
-                    sides = []
-                    if b:
-                        for e in (b[1], b[2]):
-                            ds = [who(y_) for y in ir.walk(e) for y_ in [match.deref_of(y)] if y_ is not None and who(y_)]
-                            sides.append(ds[0] if ds else None)
-                    if sides != ["a", "b"]:
-                        bad = ((False, False), o, "to_lower(*a) < to_lower(*b)")
+                if bad:
+                    break
             if bad:
-                k, o, w = bad
-                desc = {(True, True): "both exhausted", (True, False): "a is a proper prefix of b", (False, True): "b is a proper prefix of a",
-                        (False, False): "difference inside both", ("loop",): "differing characters"}.get(k, str(k))
-                ck.violation("CMP3-ORIENT" if fam == "compare_icase" else "ICASE-OVERLOADS", fn.qname, tag + ":" + desc.replace(" ", "-"),
-                             "%s: when %s the result is %s, must be %s" % (tag, desc, o[1] if o[0] == "const" else dtable.describe(o[1]), w), fn.loc)
+                a, b, o, want = bad
+                la, lb = lower(a), lower(b)
+                desc = "both exhausted" if la == lb else "a is a proper prefix of b" if lb.startswith(la) else "b is a proper prefix of a" if la.startswith(lb) \
+                    else "differing characters"
+                ck.violation(rule, fn.qname, tag + ":" + desc.replace(" ", "-"),
+                             "%s: when %s (a=%r, b=%r) it %s, must be %s" % (tag, desc, a.decode(), b.decode(), show(o), want), fn.loc)
             else:
-                ck.ok("CMP3-ORIENT" if fam == "compare_icase" else "ICASE-OVERLOADS", tag, "end-of-input table over (a exhausted, b exhausted) has the sign/truth of a < b, a == b")
+                ck.ok(rule, tag, "all %d pairs of strings over {a,A,b,B} up to length 2: the result has the sign/truth of a < b, a == b on the lower-cased strings"
+                      % (len(strs) ** 2))
 
 
-# ------------------------------------------------------------------ forwarding roles
-def check_forward_roles(ck, tu, family):
-    """in a forwarding call to an overload of the same family every argument that is a plain parameter goes to the
-    callee parameter of the same name"""
-    for fn in tu.find(qname="tlx::" + family):
-        for c in fn.nodes():
-            if "callee" not in c or c["callee"]["qname"] != fn.qname or c["k"] != "CallExpr":
-                continue
-            callee = tu.by_did.get(c["callee"]["did"])
-            if callee is None or callee is fn:
-                continue
-            tag = "%s/%d -> %s/%d" % (family, len(fn.params), family, len(callee.params))
-            bad = None
-            for a, p in zip(kids(c), callee.params):
-                r = ref_of(a)
-                i = fn.param_index(r) if r is not None else None
-                if i is not None and strip_casts(a)["k"] == "DeclRefExpr" and fn.params[i]["name"] != p["name"] and fn.params[i]["name"] in [q["name"] for q in callee.params] + ["min_fields"]:
-                    bad = (fn.params[i]["name"], p["name"])
-            if bad:
-                ck.violation("FORWARD-ROLES", fn.qname, "%s:%s->%s" % (tag.replace(" ", ""), bad[0], bad[1]),
-                             "%s passes its parameter `%s` where the callee expects `%s`" % (tag, bad[0], bad[1]), fn.nloc(c))
-            else:
-                ck.ok("FORWARD-ROLES", tag + " @" + fn.nloc(c), "parameters forwarded to the parameters of the same name", nontrivial=False)
-            # min_fields handling: resize up to min_fields afterwards
-        if any(p["name"] == "min_fields" for p in fn.params) and fn.params[0]["name"] == "into":
-            mf = [p["did"] for p in fn.params if p["name"] == "min_fields"][0]
-            rs = [x for x in fn.nodes() if "callee" in x and x["callee"]["name"] == "resize" and ref_of(kids(x)[1]) == mf]
-            guard = [x for x in fn.nodes() if x["k"] == "IfStmt" and match.binop(kids(x)[0], ("<",)) and ref_of(match.binop(kids(x)[0], ("<",))[2]) == mf]
-            if rs and guard:
-                ck.ok("FORWARD-ROLES", "%s/%d min_fields" % (family, len(fn.params)), "result padded up to min_fields only", nontrivial=False)
-            else:
-                ck.violation("FORWARD-ROLES", fn.qname, "%s/%d:min_fields" % (family, len(fn.params)), "the result is not padded up to min_fields", fn.loc)
-
-
+# ------------------------------------------------------------------ replace_all
 def check_replace(ck, tu):
-    """replace_all: after an occurrence at `thispos` was replaced, the scan resumes exactly behind what was written there
-    (thispos + length written); resuming further right skips bytes that were never examined, resuming further left can
-    re-match inside the replacement"""
+    """replace_all: after an occurrence was replaced the scan resumes exactly behind what was written there; resuming further
+    right skips bytes that were never examined, resuming further left re-matches inside the replacement.  Decided by evaluating
+    every overload on all short strings and comparing with the left-to-right non-overlapping replacement."""
     n = 0
-    for fn in [f for f in tu.functions if f.qname == "tlx::replace_all" and f.body is not None]:
-        loops = [l for l in match.loops_in(fn.body) if l["k"] == "WhileStmt"]
-        if len(loops) != 1:
-            raise ir.AnalysisBroken("%s: scan loop not found" % fn.loc)
-        cond, body = kids(loops[0])
-        # thispos = haystack.find(needle..., lastpos...)
-        asg = [z for z in ir.walk(cond) if match.binop(z, ("=",)) and z["k"] == "BinaryOperator"]
-        finds = [z for z in ir.walk(cond) if "callee" in z and z["callee"]["name"] == "find"]
-        if len(asg) != 1 or len(finds) != 1:
-            raise ir.AnalysisBroken("%s: `thispos = x.find(...)` not found in the loop condition" % fn.loc)
-        thispos = ref_of(match.binop(asg[0], ("=",))[1])
-        fargs = kids(finds[0])[1:]
-        lastpos = ref_of(fargs[1]) if len(fargs) > 1 else None
-        # what is written at thispos
-        written = None
-        for z in ir.walk(body):
-            if "callee" in z and z["callee"]["name"] == "replace" and z.get("member_call") and len(kids(z)) >= 5 and ref_of(kids(z)[1]) == thispos:
-                written = ("len", kids(z)[4])
-            b = match.binop(z, ("=",))
-            if b and match.index_parts(b[1]) and ref_of(match.index_parts(b[1])[1]) == thispos:
-                written = ("one", None)
-        resume = None
-        for z in ir.walk(body):
-            b = match.binop(z, ("=",)) if z["k"] == "BinaryOperator" else None
-            if b and lastpos is not None and ref_of(b[1]) == lastpos:
-                resume = b[2]
-        sigs = "replace_all(%s)" % ",".join(p["ty"].replace("std::", "").replace("tlx::", "")[:22] for p in fn.params)
-        if written is None or resume is None or lastpos is None:
-            raise ir.AnalysisBroken("%s: write at thispos / resume position not found" % fn.loc)
+    strs = words(b"ab", 4)
+    for sg in (("ref:str", "view", "view"), ("ref:str", "char", "char"), ("view", "view", "view"), ("view", "char", "char")):
+        fn = the_overload(tu, "tlx::replace_all", sg)
         n += 1
-        pl = match.binop(resume, ("+",))
-        good = False
-        if pl and ref_of(pl[1]) == thispos:
-            if written[0] == "one":
-                good = const_int(pl[2]) == 1
-            else:
-                good = match.same_expr(pl[2], written[1])
-        if not good:
-            ck.violation("REPLACE-RESUME", fn.qname, sigs, "after replacing the occurrence at thispos the scan resumes at %s, but %s written there: "
-                         "with an empty replacement (deletion) the byte right behind the occurrence is skipped, so an adjacent second occurrence survives"
-                         % (dtable.describe(resume), "one character was" if written[0] == "one" else "%s characters were" % dtable.describe(written[1])),
-                         fn.nloc(resume))
+        inplace = sg[0] == "ref:str"
+        chars = sg[1] == "char"
+        pairs = [(b"a", b"b"), (b"a", b"a"), (b"b", b"a")] if chars else \
+            [(nd, ins) for nd in (b"a", b"aa", b"ab", b"ba") for ins in (b"", b"a", b"b", b"ab", b"aa", b"bab")]
+        sigs = "replace_all(%s)" % ",".join(p["ty"].replace("std::", "").replace("tlx::", "")[:22] for p in fn.params)
+        bad = None
+        for nd, ins in pairs:
+            for s in strs:
+                subject = Str(s)
+                args = [Ref(subject) if inplace else view_of(s), nd[0] if chars else view_of(nd), ins[0] if chars else view_of(ins)]
+                o = located(fn, lambda: outcome(tu, fn, args))
+                want = s.replace(nd, ins)
+                if o != ("ok", want) or (inplace and concrete(subject) != want):
+                    bad = (s, nd, ins, o if o != ("ok", want) else ("ok", concrete(subject)), want)
+                    break
+            if bad:
+                break
+        if bad:
+            s, nd, ins, o, want = bad
+            ck.violation("REPLACE-RESUME", fn.qname, sigs, "replacing %r by %r in %r %s, expected %r: after a replacement the scan does not resume exactly behind what was "
+                         "written (with an empty replacement the byte right behind the occurrence is skipped, so an adjacent second occurrence survives)"
+                         % (nd.decode(), ins.decode(), s.decode(), show(o), want), fn.loc)
         else:
-            ck.ok("REPLACE-RESUME", sigs, "resumes at thispos + length written")
+            ck.ok("REPLACE-RESUME", sigs, "all strings over {a,b} up to length 4 x needles x replacements (incl. empty): equals the left-to-right non-overlapping replacement")
     return n
 
 
 def run(ck):
     ck.explanation = (
-        "Writer/reader agreement decided from tables and structure: the base64 alphabet is RFC 4648 and the decoder table inverts it, padding and "
-        "whitespace are skipped by all four letter-reading loops, encoder and decoder bit flows are traced symbolically (every output bit to its input "
-        "bit, for 1/2/3 bytes and 2/3/4 letters) so decode o encode is the identity; hex digit tables agree with both nibble switches of the parser. "
-        "SCAN-WINDOW: separator scans are guarded by it + L <= end and resume behind a match. QUOTE-AGREE: the reader's top-level classes are extracted "
-        "and the writer's quoting predicate must cover every field the reader would otherwise mis-parse; escape letters are mutually inverse. "
-        "CMP3-ORIENT / ICASE-OVERLOADS: end-of-input decision tables of the 12 case-insensitive comparison overloads. FORWARD-ROLES: forwarding "
-        "overloads pass parameters to the callee parameter of the same name. Values of the pure helpers (trim, pad, levenshtein, replace...) are not decided.")
+        "Writer/reader agreement decided by evaluating the extracted ASTs on a small abstract machine (integers, bytes, pointers into buffers, std::string, "
+        "string_view, vector; whatever it does not model is 'cannot decide'): the base64 encoder and decoder are run on symbolic bytes / letters and every output "
+        "bit is traced to its input bit (1/2/3 bytes, 2/3/4 letters), the tables found by that run are compared with RFC 4648 and the decoder is run with every "
+        "special table value in front of each of the four letters of a group; hexdump / parse_hexdump are run on all 256 byte values and all digit pairs. "
+        "SCAN-WINDOW / FORWARD-ROLES: every split / split_view overload is run on all strings over {a,b} up to length 4 and compared with the left-to-right "
+        "non-overlapping cut (a window that leaves the string is a fault of the run). QUOTE-AGREE: split_quoted(join_quoted(v)) == v for all short field lists over "
+        "the special characters. CMP3-ORIENT / ICASE-OVERLOADS: all 12 overloads on all pairs of short mixed-case strings. REPLACE-RESUME: all four replace_all "
+        "overloads on all short strings. Values of the other pure helpers (trim, pad, levenshtein...) are not decided.")
+    ck.assumptions.append("tlx::to_lower / to_upper (defined in another translation unit) map A-Z / a-z and leave every other byte unchanged")
+    ck.assumptions.append("std::string, std::vector, string_view members and the std algorithms used are modelled by their specification")
     tu_b = ir.extract("tlx/string/base64.cpp")
-    check_base64(ck, tu_b)
+    ck.guarded(lambda: check_base64(ck, tu_b))
     tu_h = ir.extract("tlx/string/hexdump.cpp")
-    check_hex(ck, tu_h)
+    ck.guarded(lambda: check_hex(ck, tu_h))
     tu_s = ir.extract("tlx/string/split.cpp")
-    check_scan_window(ck, tu_s, "tlx::split")
-    check_forward_roles(ck, tu_s, "split")
+    ck.guarded(lambda: check_split_family(ck, tu_s, "split"))
     tu_v = ir.extract("tlx/string/split_view.cpp")
-    check_scan_window(ck, tu_v, "tlx::split_view")
-    check_forward_roles(ck, tu_v, "split_view")
-    check_quote(ck, ir.extract("tlx/string/join_quoted.cpp"), ir.extract("tlx/string/split_quoted.cpp"))
-    check_icase(ck, {f: ir.extract("tlx/string/%s.cpp" % f) for f in ("compare_icase", "equal_icase", "less_icase")})
-    ck.require(check_replace(ck, ir.extract("tlx/string/replace.cpp")) == 4, "expected the four replace_all overloads")
+    ck.guarded(lambda: check_split_family(ck, tu_v, "split_view"))
+    tu_j, tu_q = ir.extract("tlx/string/join_quoted.cpp"), ir.extract("tlx/string/split_quoted.cpp")
+    ck.guarded(lambda: check_quote(ck, tu_j, tu_q))
+    tus = {f: ir.extract("tlx/string/%s.cpp" % f) for f in ("compare_icase", "equal_icase", "less_icase")}
+    ck.guarded(lambda: check_icase(ck, tus))
+    tu_r = ir.extract("tlx/string/replace.cpp")
+    ck.guarded(lambda: ck.require(check_replace(ck, tu_r) == 4, "expected the four replace_all overloads"))
     ck.floor("REPLACE-RESUME", 4)
     ck.floor("B64-TABLES", 1)
     ck.floor("B64-SKIP", 1)
